@@ -17,6 +17,7 @@ Recognised subset (everything else is rejected):
   break_tie    tie_breaker == "..." [and include_accept] tests; np.random.choice(alts) / alts[0] / alts / raise
 """
 import ast, hashlib, os, re, sys
+from fractions import Fraction
 
 class TErr(Exception):
     pass
@@ -2368,3 +2369,1139 @@ def translate_eatscf(repo):
         "  map (fun i : nat => (match find (fun p : Z * Z => (fst p =? Z.of_nat i)%Z) term with Some p => snd p - Z.of_nat n | None => 0 end + fixer)%Z) (seq 0 n).",
         "(* ProbabilisticSerial: the same with unit speeds *)",
         "Definition gen_ps_speeds (n : nat) : list Q := repeat 1%Q n.", ""])
+
+# ---------------------------------------------------------------------------------------------------------------
+# SimultaneousEating.bistochastic: the eating loop (numpy vector expressions compiled pointwise)
+
+def _q(x):
+    f = Fraction(x)
+    return "(%d # %d)" % (f.numerator, f.denominator) if f.denominator != 1 else "(%d # 1)" % f.numerator
+
+def _const_float(e):
+    """a constant float expression of the source (literals, + - * /), evaluated in binary64 as Python does"""
+    if isinstance(e, ast.Constant) and isinstance(e.value, (int, float)) and not isinstance(e.value, bool): return float(e.value)
+    if isinstance(e, ast.BinOp) and isinstance(e.op, (ast.Add, ast.Sub, ast.Mult, ast.Div)):
+        a, b = _const_float(e.left), _const_float(e.right)
+        if a is None or b is None: return None
+        return {ast.Add: a + b, ast.Sub: a - b, ast.Mult: a * b}[type(e.op)] if not isinstance(e.op, ast.Div) else a / b
+    return None
+
+class EatC:
+    """env: name -> type. Types: 'voq' vector of option Q (float array that may hold NaN), 'von' vector of option nat (float array holding positions or
+    item numbers, NaN = none), 'vq' vector of Q (never NaN), 'fq' function nat -> Q (the speeds argument), 'q' scalar Q, 'oq' scalar option Q, 'n' the size"""
+    def __init__(self, nvar, ranked, speeds):
+        self.env = {nvar: "n", speeds: "fq"}; self.n = nvar; self.ranked = ranked; self.speeds = speeds
+
+    # ---- element of a vector expression at index variable ix; returns (coq, type) with type in {'oq', 'on', 'b'}
+    def el(self, e, ix):
+        if isinstance(e, ast.Name):
+            t = self.env.get(e.id)
+            if t == "voq": return "(nth %s %s None)" % (ix, e.id), "oq"
+            if t == "von": return "(nth %s %s None)" % (ix, e.id), "on"
+            if t == "vq": return "(Some (nth %s %s 0))" % (ix, e.id), "oq"
+            if t == "fq": return "(Some (%s %s))" % (e.id, ix), "oq"
+            if t == "q": return "(Some %s)" % e.id, "oq"          # scalar broadcast
+            _fail(e, "unknown name in a vector expression")
+        if isinstance(e, ast.Constant) and isinstance(e.value, (int, float)) and not isinstance(e.value, bool):
+            return "(Some %s)" % _q(e.value), "oq"
+        if _is_np(e, "nan"): return "None", "nan"
+        if isinstance(e, ast.Call) and _is_np(e.func, "ones") and len(e.args) == 1 and is_name(e.args[0], self.n) and not e.keywords:
+            return "(Some (1 # 1))", "oq"
+        if isinstance(e, ast.BinOp) and isinstance(e.op, (ast.Add, ast.Sub, ast.Mult, ast.Div)):
+            a, ta = self.el(e.left, ix); b, tb = self.el(e.right, ix)
+            if ta != "oq" or tb != "oq": _fail(e, "arithmetic on non-real vectors")
+            return "(%s %s %s)" % ({ast.Add: "oadd", ast.Sub: "osub", ast.Mult: "omul", ast.Div: "odiv"}[type(e.op)], a, b), "oq"
+        if isinstance(e, ast.Call) and _is_np(e.func, "isnan") and len(e.args) == 1 and not e.keywords:
+            a, ta = self.el(e.args[0], ix)
+            if ta not in ("oq", "on"): _fail(e, "isnan of what")
+            return "(isnan %s)" % a, "b"
+        if isinstance(e, ast.UnaryOp) and isinstance(e.op, ast.Invert):
+            a, ta = self.el(e.operand, ix)
+            if ta != "b": _fail(e, "~ of a non-boolean vector")
+            return "(negb %s)" % a, "b"
+        if isinstance(e, ast.Compare) and len(e.ops) == 1:
+            l, r = e.left, e.comparators[0]; kr = _const_float(r); kl = _const_float(l)
+            a, ta = self.el(l, ix); b, tb = self.el(r, ix)
+            if ta == "oq" and tb == "oq" and type(e.ops[0]) in (ast.Gt, ast.Lt, ast.LtE, ast.GtE):
+                # comparisons with NaN are False
+                if kr is not None: b = "(Some %s)" % _q(kr)      # constant folded in binary64, as Python evaluates it
+                if kl is not None: a = "(Some %s)" % _q(kl)
+                op = {ast.Gt: "ogtq", ast.Lt: "oltq", ast.LtE: "oleq", ast.GtE: "ogeq"}[type(e.ops[0])]
+                return "(%s %s %s)" % (op, a, b), "b"
+            _fail(e, "comparison")
+        if isinstance(e, ast.Call) and _is_np(e.func, "where") and len(e.args) == 3 and not e.keywords:
+            c, tc = self.el(e.args[0], ix); a, ta = self.el(e.args[1], ix); b, tb = self.el(e.args[2], ix)
+            if tc != "b": _fail(e, "np.where condition")
+            def isint(x): return isinstance(x, ast.Constant) and isinstance(x.value, int) and not isinstance(x.value, bool) and x.value >= 0
+            if ta == "on" and isint(e.args[2]): b, tb = "(Some %d%%nat)" % e.args[2].value, "on"      # an integer among positions is a position
+            if tb == "on" and isint(e.args[1]): a, ta = "(Some %d%%nat)" % e.args[1].value, "on"
+            ts = {ta, tb} - {"nan"}
+            if len(ts) != 1: _fail(e, "np.where branches of different kinds")
+            t = ts.pop()
+            return "(if %s then %s else %s)" % (c, a, b), t
+        if isinstance(e, ast.Subscript) and is_name(e.value, self.ranked) and isinstance(e.slice, ast.Tuple) and len(e.slice.elts) == 2:
+            # ranked_items[np.arange(n), IDX.astype(int)]  ->  element i is ranked_items i (IDX_i)
+            r0, r1 = e.slice.elts
+            if U(r0) != "np.arange(%s)" % self.n: _fail(e, "row index of ranked_items")
+            if not (isinstance(r1, ast.Call) and isinstance(r1.func, ast.Attribute) and r1.func.attr == "astype" and U(r1.args[0]) == "int" and len(r1.args) == 1): _fail(e, "column index must be .astype(int)")
+            a, ta = self.el(r1.func.value, ix)
+            if ta != "on": _fail(e, "column index of ranked_items is not a position vector")
+            return "(Some (%s %s (oget0 %s)))" % (self.ranked, ix, a), "on"
+        _fail(e, "vector expression not understood")
+
+    def el_pos(self, e, ix):
+        """np.where(c, 0, position_vector): the literal 0 among positions is the position 0"""
+        return self.el(e, ix)
+
+def _fix_where_zero(s):
+    return s
+
+def translate_eatloop(repo):
+    src = open(os.path.join(repo, "socialchoicekit", "randomized_allocation.py")).read()
+    mod = ast.parse(src)
+    se = _find(mod.body, ast.ClassDef, "SimultaneousEating")
+    f = _find(se.body, ast.FunctionDef, "bistochastic")
+    args = [a.arg for a in f.args.args]
+    if len(args) != 3 or f.args.defaults or f.args.vararg or f.args.kwarg or f.args.kwonlyargs: _fail(f, "signature (self, profile, speeds) expected")
+    PROF, SP = args[1], args[2]
+    body = _body(f)
+    if len(body) != 8: _fail(f, "8 statements expected (6 initialisations, the loop, the return), got %d" % len(body))
+    init = [U(x) for x in body[:6]]
+    g = re.fullmatch(r"(\w+) = %s\.shape\[0\]" % PROF, init[0])
+    if not g: _fail(body[0], "n = profile.shape[0] expected")
+    N = g.group(1)
+    g = re.fullmatch(r"(\w+) = np\.argsort\(%s, axis=1\)\.view\(np\.ndarray\)" % PROF, init[1])
+    if not g: _fail(body[1], "ranked_items = np.argsort(profile, axis=1).view(np.ndarray) expected")
+    RK = g.group(1)
+    def ini(i, pat):
+        g = re.fullmatch(r"(\w+) = " + pat, init[i])
+        if not g: _fail(body[i], "initialisation %s expected" % pat)
+        return g.group(1)
+    POS = ini(2, r"np\.zeros\(%s\)" % N); REM = ini(3, r"np\.ones\(%s\)" % N); EATEN = ini(4, r"np\.zeros\(%s\)" % N); BIS = ini(5, r"np\.zeros\(\(%s, %s\)\)" % (N, N))
+    if len({N, RK, POS, REM, EATEN, BIS, PROF, SP, "self"}) != 9: _fail(f, "names must be pairwise distinct")
+    loop = body[6]
+    if not (isinstance(loop, ast.While) and isinstance(loop.test, ast.Constant) and loop.test.value is True and not loop.orelse): _fail(loop, "while True expected")
+    if U(body[7]) != "return %s" % BIS: _fail(body[7], "return of the matrix expected")
+    C = EatC(N, RK, SP); C.env.update({POS: "von", REM: "voq", EATEN: "voq"})
+    L = list(loop.body)
+    if len(L) != 18: _fail(loop, "18 statements expected in the loop body, got %d" % len(L))
+    out = []; defs = []; used = {}
+    TY = {N: "nat", RK: "nat -> nat -> nat", SP: "nat -> Q", POS: "list (option nat)", REM: "list (option Q)", EATEN: "list (option Q)", BIS: "list (list Q)"}
+    def let(V, ty, body):
+        """one Definition per statement: gen_eat_<V>[_k] over the names its body mentions, and a let in the step"""
+        TY[V] = ty
+        k = used.get(V, 0) + 1; used[V] = k
+        name = "gen_eat_set_%s" % V if k == 1 and V not in (REM, EATEN) else "gen_eat_set_%s_%d" % (V, k)
+        fv = [x for x in TY if re.search(r"(?<![\w'])%s(?![\w'])" % re.escape(x), body)]
+        defs.append("Definition %s %s : %s :=\n  %s." % (name, " ".join("(%s : %s)" % (x, TY[x]) for x in fv), ty, body))
+        out.append("let %s := %s %s in" % (V, name, " ".join(fv)))
+    # (0) exit test: if np.all(A) or np.all(B): break
+    s = L[0]
+    if not (isinstance(s, ast.If) and not s.orelse and len(s.body) == 1 and isinstance(s.body[0], ast.Break) and isinstance(s.test, ast.BoolOp) and isinstance(s.test.op, ast.Or) and len(s.test.values) == 2):
+        _fail(s, "if np.all(..) or np.all(..): break expected")
+    fin = []
+    for v in s.test.values:
+        if not (isinstance(v, ast.Call) and _is_np(v.func, "all") and len(v.args) == 1 and not v.keywords): _fail(v, "np.all expected")
+        c, t = C.el(v.args[0], "i")
+        if t != "b": _fail(v, "np.all of a non-boolean vector")
+        fin.append("forallb (fun i => %s) (seq 0 %s)" % (c, N))
+    fin_def = "  (%s) || (%s)" % (fin[0], fin[1])
+    # helpers
+    def assign(s, name=None):
+        if not (isinstance(s, ast.Assign) and len(s.targets) == 1 and isinstance(s.targets[0], ast.Name)): _fail(s, "assignment to a name expected")
+        if name is not None and s.targets[0].id != name: _fail(s, "assignment to %s expected" % name)
+        return s.targets[0].id, s.value
+    # (1) current_item
+    CUR, e = assign(L[1]); c, t = C.el(e, "i")
+    if t != "on": _fail(L[1], "current item vector must be a vector of item numbers")
+    C.env[CUR] = "von"; let(CUR, "list (option nat)", "map (fun i => %s) (seq 0 %s)" % (c, N))
+    # (2) total_speeds = np.array([np.sum(speeds[current_item == j]) for j in range(n)])
+    TOT, e = assign(L[2])
+    g = re.fullmatch(r"np\.array\(\[np\.sum\(%s\[%s == (\w+)\]\) for (\w+) in range\(%s\)\]\)" % (SP, CUR, N), U(e))
+    if not g or g.group(1) != g.group(2): _fail(L[2], "total speeds comprehension expected")
+    C.env[TOT] = "vq"
+    let(TOT, "list Q", "map (fun j => sumq (map %s (filter (fun i => oeqn (nth i %s None) j) (seq 0 %s)))) (seq 0 %s)" % (SP, CUR, N, N))
+    # (3..5) time until an agent is full; nanargmin; its value
+    def nanmin3(k):
+        V, e = assign(L[k]); c, t = C.el(e, "i")
+        if t != "oq": _fail(L[k], "real vector expected")
+        C.env[V] = "voq"; let(V, "list (option Q)", "map (fun i => %s) (seq 0 %s)" % (c, N))
+        IDX, e = assign(L[k + 1])
+        if U(e) != "np.nanargmin(%s)" % V: _fail(L[k + 1], "np.nanargmin(%s) expected" % V)
+        T, e = assign(L[k + 2])
+        if U(e) != "%s[%s]" % (V, IDX): _fail(L[k + 2], "%s[%s] expected" % (V, IDX))
+        for other in L[k + 3:]:
+            if any(isinstance(x, ast.Name) and x.id == IDX for x in ast.walk(other)): _fail(other, "the index %s is used again" % IDX)
+        return V, T
+    VA, TA = nanmin3(3)
+    out.append("match nanmin %s with None => None | Some %s =>      (* np.nanargmin raises ValueError when every agent is full *)" % (VA, TA)); TY[TA] = "Q"
+    VI, TI = nanmin3(6)
+    out.append("let %s := nanmin %s in" % (TI, VI)); TY[TI] = "option Q"
+    # (9) t = min(a, b)
+    T, e = assign(L[9])
+    if U(e) != "min(%s, %s)" % (TA, TI): _fail(L[9], "t = min(%s, %s) expected" % (TA, TI))
+    out.append("match qminO (Some %s) %s with None => None | Some %s =>" % (TA, TI, T)); C.env[T] = "q"; TY[T] = "Q"
+    # (10..12) scatter-add into the matrix
+    II, e = assign(L[10])
+    if U(e) != "np.where(~np.isnan(%s))[0]" % CUR: _fail(L[10], "indices of the eating agents expected")
+    JJ, e = assign(L[11])
+    if U(e) != "%s[%s].astype(int)" % (CUR, II): _fail(L[11], "their items expected")
+    s = L[12]
+    if not (isinstance(s, ast.AugAssign) and isinstance(s.op, ast.Add) and U(s.target) == "%s[%s, %s]" % (BIS, II, JJ)): _fail(s, "matrix[i_indices, j_indices] += ... expected")
+    class Sub(ast.NodeTransformer):      # v[i_indices] at an index that IS one of i_indices = v at that index
+        def visit_Subscript(self, n):
+            if is_name(n.slice, II) and isinstance(n.value, ast.Name): return n.value
+            return self.generic_visit(n)
+    inc, t = C.el(Sub().visit(s.value), "i")
+    if t != "oq": _fail(s, "increment")
+    let(BIS, "list (list Q)", "map (fun i => let row := nth i %s [] in match nth i %s None with Some c => upd row c (qadd (nth c row 0) (oget0q %s)) | None => row end) (seq 0 %s)" % (BIS, CUR, inc, N))
+    # (13..16) remaining fractions and eaten amounts
+    def upd2(k, V):
+        s = L[k]
+        if not (isinstance(s, ast.AugAssign) and is_name(s.target, V) and isinstance(s.op, (ast.Add, ast.Sub))): _fail(s, "%s -= / += expected" % V)
+        c, t = C.el(ast.BinOp(left=ast.Name(id=V, ctx=ast.Load()), op=s.op, right=s.value), "i")
+        let(V, "list (option Q)", "map (fun i => %s) (seq 0 %s)" % (c, N))
+        _, e = assign(L[k + 1], V); c, t = C.el(e, "i")
+        if t != "oq": _fail(L[k + 1], "real vector expected")
+        let(V, "list (option Q)", "map (fun i => %s) (seq 0 %s)" % (c, N))
+    upd2(13, REM); upd2(15, EATEN)
+    # (16) for agent in range(n): while ...: pos[agent] += 1 ; if ...: pos[agent] = nan
+    s = L[17]
+    if not (isinstance(s, ast.For) and not s.orelse and isinstance(s.target, ast.Name) and U(s.iter) == "range(%s)" % N and len(s.body) == 2): _fail(s, "for agent in range(n) with two statements expected")
+    AG = s.target.id
+    if AG in C.env or AG in (N, RK, POS, REM, EATEN, BIS, PROF, SP, CUR, TOT, T): _fail(s, "loop variable shadows a name")
+    w, i2 = s.body
+    want_w = "while %s[%s] < %s and np.isnan(%s[%s[%s, %s[%s].astype(int)]]): %s[%s] += 1" % (POS, AG, N, REM, RK, AG, POS, AG, POS, AG)
+    want_i = "if %s[%s] == %s or np.isnan(%s[%s]): %s[%s] = np.nan" % (POS, AG, N, EATEN, AG, POS, AG)
+    if not isinstance(w, ast.While) or w.orelse or U(w) != want_w: _fail(w, "advance loop: %r expected, got %r" % (want_w, U(w)))
+    if not isinstance(i2, ast.If) or i2.orelse or U(i2) != want_i: _fail(i2, "retire test: %r expected, got %r" % (want_i, U(i2)))
+    let(POS, "list (option nat)", "map (fun %s => match nth %s %s None with\n"
+        "    | None => None      (* NaN < n and NaN == n are False: the inner loop is skipped and the position stays NaN whichever way the test goes *)\n"
+        "    | Some p => let p' := gen_eat_advance %s %s %s %s (S %s) p in if (p' =? %s)%%nat || isnan (nth %s %s None) then None else Some p' end) (seq 0 %s)" % (AG, AG, POS, N, RK, REM, AG, N, N, AG, EATEN, N))
+    out.append("Some {| pos := %s; rem := %s; eaten := %s; X := %s |} end end." % (POS, REM, EATEN, BIS))
+    hdr = ["(* GENERATED by harness/translate.py from SimultaneousEating.bistochastic (randomized_allocation.py:%d). Do not edit." % f.lineno,
+           "   Every numpy vector expression is compiled pointwise: v = E becomes  let v := map (fun i => <element i of E>) (seq 0 n). NaN is None. *)",
+           "From Coq Require Import ZArith QArith List Bool.", "Import ListNotations.", "From SCK Require Import Eat3 GenNp.", "Local Open Scope Q_scope.", "",
+           "(* the inner while loop of the last for loop: positions advance while the item there is used up; at most n+1 tests are needed (gen_eat_advance_exit) *)",
+           "Fixpoint gen_eat_advance (%s : nat) (%s : nat -> nat -> nat) (%s : list (option Q)) (%s : nat) (fuel p : nat) : nat :=" % (N, RK, REM, AG),
+           "  match fuel with O => p | S f => if (p <? %s)%%nat && isnan (nth (%s %s p) %s None) then gen_eat_advance %s %s %s %s f (S p) else p end." % (N, RK, AG, REM, N, RK, REM, AG), "",
+           "(* the exit test at the top of the loop *)",
+           "Definition gen_eat_finished (%s : nat) (st : est) : bool :=" % N,
+           "  let %s := rem st in let %s := eaten st in" % (REM, EATEN), fin_def + ".", "",
+           "(* the statements of the loop body, one definition each *)"] + defs + ["",
+           "(* one pass through the loop body; None = the pass raises (np.nanargmin of an all-NaN vector) *)",
+           "Definition gen_eat_step (%s : nat) (%s : nat -> nat -> nat) (%s : nat -> Q) (st : est) : option est :=" % (N, RK, SP),
+           "  let %s := pos st in let %s := rem st in let %s := eaten st in let %s := X st in" % (POS, REM, EATEN, BIS)]
+    tail = ["", "(* while True: ... break; fuel bounds the number of passes (2n+2 suffice: Eat3Term.eating_terminates) *)",
+            "Fixpoint gen_eat_loop (%s : nat) (%s : nat -> nat -> nat) (%s : nat -> Q) (fuel : nat) (st : est) : option est :=" % (N, RK, SP),
+            "  match fuel with O => None | S f => if gen_eat_finished %s st then Some st else match gen_eat_step %s %s %s st with None => None | Some st' => gen_eat_loop %s %s %s f st' end end." % (N, N, RK, SP, N, RK, SP), "",
+            "(* the initialisations before the loop: np.zeros(n), np.ones(n), np.zeros(n), np.zeros((n, n)) *)",
+            "Definition gen_eat_init (%s : nat) : est := {| pos := repeat (Some 0%%nat) %s; rem := repeat (Some (1 # 1)) %s; eaten := repeat (Some (0 # 1)) %s; X := repeat (repeat (0 # 1) %s) %s |}." % (N, N, N, N, N, N), "",
+            "(* ranked_items = np.argsort(profile, axis=1): row i holds agent i's items from best to worst (argsort: the row sorter, see the proof file) *)",
+            "Definition gen_eat_ranked {K} (argsort : list K -> list nat) (%s : list (list K)) : nat -> nat -> nat := fun i p => nth p (nth i (map argsort %s) []) O." % (PROF, PROF),
+            "Definition gen_eat_bistochastic {K} (argsort : list K -> list nat) (%s : list (list K)) (%s : nat -> Q) : option (list (list Q)) :=" % (PROF, SP),
+            "  let %s := length %s in" % (N, PROF),
+            "  match gen_eat_loop %s (gen_eat_ranked argsort %s) %s (2 * %s + 2) (gen_eat_init %s) with Some st => Some (X st) | None => None end." % (N, PROF, SP, N, N), ""]
+    # ProbabilisticSerial.bistochastic: unit speeds
+    ps = _find(mod.body, ast.ClassDef, "ProbabilisticSerial"); pb = _find(ps.body, ast.FunctionDef, "bistochastic")
+    if [U(x) for x in _body(pb)] != ["return self.simultaneous_eating.bistochastic(profile, np.ones(profile.shape[0]))"]: _fail(pb, "ProbabilisticSerial.bistochastic shape")
+    tail += ["Definition gen_ps_bistochastic {K} (argsort : list K -> list nat) (profile : list (list K)) : option (list (list Q)) := gen_eat_bistochastic argsort profile (fun _ => (1 # 1)).", ""]
+    return "\n".join(hdr + ["  " + x for x in out] + tail)
+
+
+# ---------------------------------------------------------------------------------------------------------------
+# distortion.distortion, birkhoff_von_neumann (the loop), is_consistent_valuation_profile, the valuation generators, compute_ordinal_profile
+
+def translate_distortion(repo):
+    src = open(os.path.join(repo, "socialchoicekit", "distortion.py")).read()
+    mod = ast.parse(src)
+    fns = [x.name for x in mod.body if isinstance(x, (ast.FunctionDef, ast.ClassDef))]
+    if fns != ["distortion"]: _fail(mod, "distortion.py should define exactly the function distortion, found %r" % (fns,))
+    imps = sorted(U(x) for x in mod.body if isinstance(x, (ast.Import, ast.ImportFrom)))
+    want_imps = sorted(["import numpy as np", "from typing import Union", "from socialchoicekit.deterministic_scoring import SocialWelfare", "from socialchoicekit.utils import check_valuation_profile",
+                        "from socialchoicekit.profile_utils import ValuationProfile, incomplete_valuation_profile_to_complete_valuation_profile"])
+    if imps != want_imps: _fail(mod, "imports of distortion.py changed (the names used below could mean something else): %r" % (imps,))
+    f = _find(mod.body, ast.FunctionDef, "distortion")
+    a = [x.arg for x in f.args.args]
+    if len(a) != 2 or f.args.defaults or f.args.vararg or f.args.kwarg or f.args.kwonlyargs: _fail(f, "signature (choice, valuation_profile) expected")
+    CH, VP = a
+    b = _body(f); got = [U(x) for x in b]
+    if len(b) != 6: _fail(f, "6 statements expected, got %d" % len(b))
+    if got[0] != "check_valuation_profile(%s, is_complete=False)" % VP: _fail(b[0], "validation call expected")
+    g1 = re.fullmatch(r"(\w+) = incomplete_valuation_profile_to_complete_valuation_profile\(%s\)" % VP, got[1])
+    if not g1: _fail(b[1], "completion of the valuation profile expected")
+    CV = g1.group(1)
+    g2 = re.fullmatch(r"(\w+) = SocialWelfare\(tie_breaker='(\w+)'\)", got[2])
+    if not g2: _fail(b[2], "SocialWelfare(...) expected")
+    SW = g2.group(1)
+    g3 = re.fullmatch(r"(\w+) = %s\.score\(%s\)" % (SW, CV), got[3])
+    if not g3: _fail(b[3], "score of the completed profile expected")
+    SC = g3.group(1)
+    if len({CH, VP, CV, SW, SC}) != 5: _fail(f, "names must be pairwise distinct")
+    s4 = b[4]
+    if not (isinstance(s4, ast.If) and not s4.orelse and len(s4.body) == 1 and U(s4.test) == "isinstance(%s, np.ndarray)" % CH): _fail(s4, "array-choice branch expected")
+    def ratio(ret, inner):
+        # np.max(score) / INNER(score[choice - K])
+        if not isinstance(ret, ast.Return) or not isinstance(ret.value, ast.BinOp) or not isinstance(ret.value.op, ast.Div): _fail(ret, "return of a quotient expected")
+        if U(ret.value.left) != "np.max(%s)" % SC: _fail(ret, "numerator np.max(score) expected")
+        d = U(ret.value.right)
+        g = re.fullmatch((r"np\.min\(%s\[%s - (\d+)\]\)" if inner else r"%s\[%s - (\d+)\]") % (SC, CH), d)
+        if not g: _fail(ret, "denominator: score of the choice expected, got %s" % d)
+        return int(g.group(1))
+    k1 = ratio(s4.body[0], True); k2 = ratio(b[5], False)
+    # the completion helper
+    src2 = open(os.path.join(repo, "socialchoicekit", "profile_utils.py")).read()
+    m2 = ast.parse(src2)
+    h = _find(m2.body, ast.FunctionDef, "incomplete_valuation_profile_to_complete_valuation_profile")
+    ha = [x.arg for x in h.args.args]
+    hb = [U(x) for x in _body(h)]
+    g = re.fullmatch(r"return CompleteValuationProfile\.of\(np\.where\(np\.isnan\(%s\), (-?\d+(?:\.\d+)?), %s\)\)" % (ha[0], ha[0]), hb[0]) if len(ha) == 1 and len(hb) == 1 else None
+    if not g: _fail(h, "np.where(np.isnan(V), c, V) expected in the completion helper")
+    fill = Fraction(g.group(1))
+    return "\n".join([
+        "(* GENERATED by harness/translate.py from distortion.distortion (distortion.py:%d) and incomplete_valuation_profile_to_complete_valuation_profile (profile_utils.py:%d). Do not edit. *)" % (f.lineno, h.lineno),
+        "From Coq Require Import ZArith QArith List Bool.", "Import ListNotations.", "From SCK Require Import Voting GenLib GenUtil.", "From SCKGen Require Import ScoringGen.", "",
+        "(* np.where(np.isnan(V), %s, V) *)" % g.group(1),
+        "Definition gen_complete_vp (V : list (list (option Q))) : list (list (option Q)) := map (map (fun x : option Q => match x with None => Some (%d # %d) | Some _ => x end)) V." % (fill.numerator, fill.denominator), "",
+        "(* np.min over the chosen entries *)",
+        "Definition gen_aminQ (l : list Q) : Q := match l with x :: t => fold_left (fun a y => if Qle_bool a y then a else y) t x | [] => 0%Q end.", "",
+        "(* choice is an int (an alternative numbered from %d): np.max(score) / score[choice - %d] *)" % (k2, k2),
+        "Definition gen_distortion_int (%s : nat) (%s : list (list (option Q))) : Q :=" % (CH, VP),
+        "  let %s := gen_complete_vp %s in let %s := gen_score_SocialWelfare %s in (amaxQ %s / nth (%s - %d) %s 0)%%Q." % (CV, VP, SC, CV, SC, CH, k2, SC), "",
+        "(* choice is an array of alternatives: np.max(score) / np.min(score[choice - %d]) *)" % k1,
+        "Definition gen_distortion_arr (%s : list nat) (%s : list (list (option Q))) : Q :=" % (CH, VP),
+        "  let %s := gen_complete_vp %s in let %s := gen_score_SocialWelfare %s in (amaxQ %s / gen_aminQ (map (fun c => nth (c - %d) %s 0%%Q) %s))%%Q." % (CV, VP, SC, CV, SC, k1, SC, CH), ""])
+
+def translate_bvnloop(repo):
+    src = open(os.path.join(repo, "socialchoicekit", "bistochastic.py")).read()
+    mod = ast.parse(src)
+    imps = sorted(U(x) for x in mod.body if isinstance(x, (ast.Import, ast.ImportFrom)))
+    if imps != sorted(["import numpy as np", "from typing import List, Tuple, Dict", "from socialchoicekit.utils import check_square_matrix",
+                       "from socialchoicekit.flow import maximum_cardinality_matching_bipartite"]): _fail(mod, "imports of bistochastic.py changed: %r" % (imps,))
+    f = _find(mod.body, ast.FunctionDef, "birkhoff_von_neumann")
+    a = [x.arg for x in f.args.args]
+    if len(a) != 1 or f.args.defaults or f.args.vararg or f.args.kwarg or f.args.kwonlyargs: _fail(f, "birkhoff_von_neumann(X) expected")
+    X = a[0]; b = _body(f)
+    if len(b) != 6: _fail(f, "6 statements expected, got %d" % len(b))
+    got = [U(s) for s in b]
+    if got[0] != "check_square_matrix(%s)" % X: _fail(b[0], "validation expected")
+    if got[1] != "%s = np.array(%s, dtype=float)" % (X, X): _fail(b[1], "working copy X = np.array(X, dtype=float) expected")
+    g = re.fullmatch(r"(\w+) = %s\.shape\[0\]" % X, got[2])
+    if not g: _fail(b[2], "n = X.shape[0] expected")
+    N = g.group(1)
+    g = re.fullmatch(r"(\w+) = \[\]", got[3])
+    if not g: _fail(b[3], "result = [] expected")
+    RES = g.group(1)
+    if got[5] != "return %s" % RES: _fail(b[5], "return result expected")
+    w = b[4]
+    if not (isinstance(w, ast.While) and isinstance(w.test, ast.Constant) and w.test.value is True and not w.orelse): _fail(w, "while True expected")
+    L = w.body
+    if len(L) != 8: _fail(w, "8 statements expected in the loop, got %d" % len(L))
+    s = L[0]
+    if not (isinstance(s, ast.If) and not s.orelse and len(s.body) == 1 and isinstance(s.body[0], ast.Break)): _fail(s, "exit test expected")
+    g = re.fullmatch(r"np\.all\(np\.abs\(%s\) < ([0-9.e+-]+)\)" % X, U(s.test))
+    if not g: _fail(s, "np.all(np.abs(X) < threshold) expected")
+    thr = Fraction(float(g.group(1)))
+    g = re.fullmatch(r"(\w+) = positivity_graph\(%s\)" % X, U(L[1]))
+    if not g: _fail(L[1], "G_X = positivity_graph(X) expected")
+    G = g.group(1)
+    g = re.fullmatch(r"(\w+) = maximum_cardinality_matching_bipartite\(%s, list\(range\(%s\)\), list\(range\(%s, %s \* 2\)\)\)" % (G, N, N, N), U(L[2]))
+    if not g: _fail(L[2], "perfect_matching = maximum_cardinality_matching_bipartite(G_X, list(range(n)), list(range(n, n * 2))) expected")
+    PM = g.group(1)
+    g = re.fullmatch(r"(\w+) = np\.zeros\(%s\.shape\)" % X, U(L[3]))
+    if not g: _fail(L[3], "P = np.zeros(X.shape) expected")
+    P = g.group(1)
+    g = re.fullmatch(r"(\w+) = np\.inf", U(L[4]))
+    if not g: _fail(L[4], "z = np.inf expected")
+    Z = g.group(1)
+    lo = L[5]
+    if not (isinstance(lo, ast.For) and not lo.orelse and U(lo.iter) == PM and isinstance(lo.target, ast.Tuple) and len(lo.target.elts) == 2 and all(isinstance(e, ast.Name) for e in lo.target.elts) and len(lo.body) == 2):
+        _fail(lo, "for (i, j) in perfect_matching with two statements expected")
+    I, J = [e.id for e in lo.target.elts]
+    if len({X, N, RES, G, PM, P, Z, I, J}) != 9: _fail(f, "names must be pairwise distinct")
+    if U(lo.body[0]) != "%s[%s, %s - %s] = 1" % (P, I, J, N): _fail(lo.body[0], "P[i, j - n] = 1 expected")
+    if U(lo.body[1]) != "%s = min(%s, %s[%s, %s - %s])" % (Z, Z, X, I, J, N): _fail(lo.body[1], "z = min(z, X[i, j - n]) expected")
+    if U(L[6]) != "%s -= %s * %s" % (X, Z, P): _fail(L[6], "X -= z * P expected")
+    if U(L[7]) not in ("%s.append((%s, %s))" % (RES, Z, P),): _fail(L[7], "result.append((z, P)) expected")
+    return "\n".join([
+        "(* GENERATED by harness/translate.py from birkhoff_von_neumann (bistochastic.py:%d). Do not edit. *)" % f.lineno,
+        "From Coq Require Import ZArith QArith Qabs List Bool.", "Import ListNotations.", "From SCK Require Import FlowModel BipModel BvN2.", "From SCKGen Require Import PosGraphGen.", "",
+        "(* exit test: np.all(np.abs(%s) < %s), the constant evaluated in binary64 *)" % (X, g.string and re.search(r"< ([0-9.e+-]+)\)", U(s.test)).group(1)),
+        "Definition gen_bvn_done (%s : mat) : bool := forallb (forallb (fun x : Q => negb (Qle_bool (%d # %d) (Qabs x)))) %s." % (X, thr.numerator, thr.denominator, X), "",
+        "(* %s = np.inf; for (%s, %s) in %s: %s = min(%s, %s[%s, %s - %s])    (None = still infinite: the matching was empty) *)" % (Z, I, J, PM, Z, Z, X, I, J, N),
+        "Definition gen_bvn_z (%s : mat) (%s : nat) (%s : list (Z * Z)) : option Q :=" % (X, N, PM),
+        "  fold_left (fun %s ij => let v := mget %s (Z.to_nat (fst ij)) (Z.to_nat (snd ij) - %s) in" % (Z, X, N),
+        "                         match %s with None => Some v | Some z0 => Some (if Qle_bool z0 v then z0 else v) end) %s None." % (Z, PM), "",
+        "(* %s = np.zeros(%s.shape); for (%s, %s) in %s: %s[%s, %s - %s] = 1    : entry (i, j) of %s is 1 iff (i, j + %s) is in the matching *)" % (P, X, I, J, PM, P, I, J, N, P, N),
+        "Definition gen_bvn_P (%s : nat) (%s : list (Z * Z)) (i j : nat) : bool := existsb (pair_eqb (Z.of_nat i, Z.of_nat (j + %s))) %s." % (N, PM, N, PM), "",
+        "(* %s -= %s * %s    (for a 0/1 matrix the product and the difference are exact in binary64: x - z * 1 = x - z, x - z * 0 = x) *)" % (X, Z, P),
+        "Definition gen_bvn_sub (%s : mat) (%s : nat) (%s : list (Z * Z)) (%s : Q) : mat :=" % (X, N, PM, Z),
+        "  map (fun i => map (fun j => if gen_bvn_P %s %s i j then qsub (mget %s i j) %s else mget %s i j) (seq 0 %s)) (seq 0 %s)." % (N, PM, X, Z, X, N, N), "",
+        "(* while True; mcmb = maximum_cardinality_matching_bipartite (None = it raises); a term (z, P) is recorded as (z, the matching P stands for) *)",
+        "Fixpoint gen_bvn_loop (mcmb : bgraph -> list Z -> list Z -> option (list (Z * Z))) (fuel %s : nat) (%s : mat) (%s : list (Q * list (Z * Z))) : option (list (Q * list (Z * Z))) :=" % (N, X, RES),
+        "  match fuel with O => None | S f =>",
+        "    if gen_bvn_done %s then Some %s else" % (X, RES),
+        "    let %s := gen_posgraph %s %s in" % (G, X, N),
+        "    match mcmb %s (map Z.of_nat (seq 0 %s)) (map Z.of_nat (seq %s (%s * 2 - %s))) with None => None | Some %s =>" % (G, N, N, N, N, PM),
+        "    match gen_bvn_z %s %s %s with None => None | Some %s =>" % (X, N, PM, Z),
+        "    gen_bvn_loop mcmb f %s (gen_bvn_sub %s %s %s %s) (%s ++ [(%s, %s)]) end end end." % (N, X, N, PM, Z, RES, Z, PM), "",
+        "Definition gen_bvn (mcmb : bgraph -> list Z -> list Z -> option (list (Z * Z))) (%s : mat) : option (list (Q * list (Z * Z))) :=" % X,
+        "  let %s := length %s in gen_bvn_loop mcmb (%s * %s + 2) %s %s []." % (N, X, N, N, N, X), ""])
+
+def translate_consistent(repo):
+    src = open(os.path.join(repo, "socialchoicekit", "profile_utils.py")).read()
+    mod = ast.parse(src)
+    f = _find(mod.body, ast.FunctionDef, "is_consistent_valuation_profile")
+    a = [x.arg for x in f.args.args]
+    if len(a) != 2 or f.args.defaults or f.args.vararg or f.args.kwarg or f.args.kwonlyargs: _fail(f, "signature (valuation_profile, profile) expected")
+    VP, PR = a
+    b = _body(f); got = [U(s) for s in b]
+    if len(b) != 8: _fail(f, "8 statements expected, got %d" % len(b))
+    if got[0] != "check_valuation_profile(%s, is_complete=False)" % VP or got[1] != "check_profile(%s, is_complete=False, is_strict=False)" % PR: _fail(b[0], "the two validation calls expected")
+    g1 = re.fullmatch(r"(\w+) = %s\.shape\[0\]" % VP, got[2]); g2 = re.fullmatch(r"(\w+) = %s\.shape\[1\]" % VP, got[3])
+    if not (g1 and g2): _fail(b[2], "n, m = shape of the valuation profile expected")
+    N, M = g1.group(1), g2.group(1)
+    g3 = re.fullmatch(r"(\w+) = np\.argsort\(%s \* -1, axis=1\)\.view\(np\.ndarray\)" % VP, got[4])
+    g4 = re.fullmatch(r"(\w+) = np\.argsort\(%s, axis=1\)\.view\(np\.ndarray\)" % PR, got[5])
+    if not (g3 and g4): _fail(b[4], "the two argsorts (valuations descending, ranks ascending) expected")
+    RV, RP = g3.group(1), g4.group(1)
+    if got[7] != "return True": _fail(b[7], "return True expected")
+    lo = b[6]
+    if not (isinstance(lo, ast.For) and not lo.orelse and isinstance(lo.target, ast.Name) and U(lo.iter) == "range(%s)" % N and len(lo.body) == 1): _fail(lo, "for agent in range(n) expected")
+    AG = lo.target.id; li = lo.body[0]
+    if not (isinstance(li, ast.For) and not li.orelse and isinstance(li.target, ast.Name) and U(li.iter) == "range(%s)" % M and len(li.body) == 4): _fail(li, "for item_rank in range(m) with four statements expected")
+    IR = li.target.id
+    s = [U(x) for x in li.body]
+    g5 = re.fullmatch(r"(\w+) = %s\[%s, %s\]" % (RV, AG, IR), s[0]); g6 = re.fullmatch(r"(\w+) = %s\[%s, %s\]" % (RP, AG, IR), s[1])
+    if not (g5 and g6): _fail(li, "the two items at this position expected")
+    IV, IP = g5.group(1), g6.group(1)
+    if len({VP, PR, N, M, RV, RP, AG, IR, IV, IP}) != 10: _fail(f, "names must be pairwise distinct")
+    c = li.body[2]
+    want = "if %s == %s: continue elif np.allclose(%s[%s, %s], %s[%s, %s]): continue" % (IV, IP, VP, AG, IP, VP, AG, IV)
+    if not isinstance(c, ast.If) or re.sub(r"\s+", " ", U(c)) != want: _fail(c, "%r expected, got %r" % (want, re.sub(r"\s+", " ", U(c))))
+    if s[3] != "return False": _fail(li.body[3], "return False expected")
+    at, rt = Fraction(1e-08), Fraction(1e-05)      # numpy's defaults for np.allclose (atol, rtol), as binary64 values
+    return "\n".join([
+        "(* GENERATED by harness/translate.py from is_consistent_valuation_profile (profile_utils.py:%d). Do not edit. *)" % f.lineno,
+        "From Coq Require Import ZArith QArith Qabs List Bool.", "Import ListNotations.", "",
+        "(* np.allclose(a, b) on scalars with numpy's default tolerances: |a - b| <= atol + rtol * |b|, atol = 1e-08, rtol = 1e-05 (binary64 values) *)",
+        "Definition gen_atol : Q := %d # %d." % (at.numerator, at.denominator), "Definition gen_rtol : Q := %d # %d." % (rt.numerator, rt.denominator),
+        "Definition gen_allclose (a b : Q) : bool := Qle_bool (Qabs (a - b)) (gen_atol + gen_rtol * Qabs b).", "",
+        "(* one agent: the inner loop; 'return False' anywhere makes the whole predicate False, so the row is accepted iff every position passes *)",
+        "Definition gen_consistent_row (%s : nat) (valuation_row : list Q) (ranked_valuation_row ranked_row : list nat) : bool :=" % M,
+        "  forallb (fun %s => let %s := nth %s ranked_valuation_row 0%%nat in let %s := nth %s ranked_row 0%%nat in" % (IR, IV, IR, IP, IR),
+        "     if (%s =? %s)%%nat then true else if gen_allclose (nth %s valuation_row 0) (nth %s valuation_row 0) then true else false) (seq 0 %s)." % (IV, IP, IP, IV, M), "",
+        "(* %s = np.argsort(%s * -1, axis=1), %s = np.argsort(%s, axis=1) are inputs here (numpy's sort; what is assumed of them is stated in the proof file) *)" % (RV, VP, RP, PR),
+        "Definition gen_consistent (%s %s : nat) (%s : list (list Q)) (%s %s : list (list nat)) : bool :=" % (N, M, VP, RV, RP),
+        "  forallb (fun %s => gen_consistent_row %s (nth %s %s []) (nth %s %s []) (nth %s %s [])) (seq 0 %s)." % (AG, M, AG, VP, AG, RV, AG, RP, N), ""])
+
+def _gen_body(cls, kind):
+    f = _find(cls.body, ast.FunctionDef, "generate")
+    a = [x.arg for x in f.args.args]
+    if len(a) != 2 or f.args.defaults or f.args.vararg or f.args.kwarg or f.args.kwonlyargs: _fail(f, "generate(self, profile) expected")
+    PR = a[1]; b = _body(f); got = [re.sub(r"\s+", " ", U(s)) for s in b]
+    if len(b) != 7: _fail(f, "7 statements expected in %s.generate, got %d" % (cls.name, len(b)))
+    if got[0] != "if self.seed is not None: np.random.seed(self.seed)": _fail(b[0], "seeding expected")
+    g1 = re.fullmatch(r"(\w+) = %s\.shape\[0\]" % PR, got[1]); g2 = re.fullmatch(r"(\w+) = %s\.shape\[1\]" % PR, got[2])
+    g3 = re.fullmatch(r"(\w+) = np\.argsort\(%s, axis=1\)\.view\(np\.ndarray\)" % PR, got[3])
+    g4 = re.fullmatch(r"(\w+) = %s\.view\(np\.ndarray\) \* 0\.0" % PR, got[4])
+    if not (g1 and g2 and g3 and g4): _fail(f, "n, m, ranked_profile, ans = profile * 0.0 expected")
+    N, M, RK, ANS = g1.group(1), g2.group(1), g3.group(1), g4.group(1)
+    if got[6] != "return ValuationProfile.of(%s)" % ANS: _fail(b[6], "return of the filled array expected")
+    lo = b[5]
+    if not (isinstance(lo, ast.For) and not lo.orelse and isinstance(lo.target, ast.Name) and U(lo.iter) == "range(%s)" % N): _fail(lo, "for agent in range(n) expected")
+    AG = lo.target.id; L = lo.body; s = [re.sub(r"\s+", " ", U(x)) for x in L]
+    want_n = 4 if kind == "uniform" else 5
+    if len(L) != want_n: _fail(lo, "%d statements expected per agent, got %d" % (want_n, len(L)))
+    g = re.fullmatch(r"(\w+) = np\.count_nonzero\(~np\.isnan\(%s\[%s\]\)\)" % (PR, AG), s[0])
+    if not g: _fail(L[0], "count of the ranked alternatives expected")
+    K = g.group(1)
+    if kind == "uniform":
+        g = re.fullmatch(r"(\w+) = np\.random\.uniform\(size=%s, high=self\.high, low=self\.low\)" % K, s[1])
+    else:
+        g = re.fullmatch(r"(\w+) = np\.random\.normal\(size=%s, loc=self\.mean, scale=np\.sqrt\(self\.variance\)\)" % K, s[1])
+    if not g: _fail(L[1], "the draw expected")
+    UT = g.group(1); k = 2; clip = False
+    if kind == "normal":
+        if s[2] != "%s = np.where(%s < 0, 0, %s)" % (UT, UT, UT): _fail(L[2], "clipping of negative draws expected")
+        clip = True; k = 3
+    if s[k] != "%s = np.sort(%s)[::-1] / np.sum(%s)" % (UT, UT, UT): _fail(L[k], "descending sort and normalisation expected")
+    li = L[k + 1]
+    if not (isinstance(li, ast.For) and not li.orelse and isinstance(li.target, ast.Name) and U(li.iter) == "range(%s)" % M and len(li.body) == 3): _fail(li, "for item_rank in range(m) with three statements expected")
+    IR = li.target.id; t = [re.sub(r"\s+", " ", U(x)) for x in li.body]
+    g = re.fullmatch(r"(\w+) = %s\[%s, %s\]" % (RK, AG, IR), t[0])
+    if not g: _fail(li.body[0], "item at this position expected")
+    IT = g.group(1)
+    if t[1] != "if np.isnan(%s[%s, %s]): break" % (PR, AG, IT): _fail(li.body[1], "break at the first unranked item expected")
+    if t[2] != "%s[%s, %s] = %s[%s]" % (ANS, AG, IT, UT, IR): _fail(li.body[2], "assignment of the value expected")
+    if len({PR, N, M, RK, ANS, AG, K, UT, IR, IT}) != 10: _fail(f, "names must be pairwise distinct")
+    return clip, f.lineno
+
+def translate_datagen(repo):
+    src = open(os.path.join(repo, "socialchoicekit", "data_generation.py")).read()
+    mod = ast.parse(src)
+    uc, ul = _gen_body(_find(mod.body, ast.ClassDef, "UniformValuationProfileGenerator"), "uniform")
+    nc, nl = _gen_body(_find(mod.body, ast.ClassDef, "NormalValuationProfileGenerator"), "normal")
+    return "\n".join([
+        "(* GENERATED by harness/translate.py from UniformValuationProfileGenerator.generate (data_generation.py:%d) and NormalValuationProfileGenerator.generate (:%d). Do not edit. *)" % (ul, nl),
+        "From Coq Require Import ZArith QArith List Bool.", "Import ListNotations.", "From SCK Require Import Eat3 ProfModel.", "",
+        "(* utilities = [np.where(utilities < 0, 0, utilities)]; utilities = np.sort(utilities)[::-1] / np.sum(utilities)      (the draws are an oracle) *)",
+        "Definition gen_dg_utilities (clip : bool) (draws : list Q) : list Q :=",
+        "  let utilities := if clip then map (fun x : Q => if negb (Qle_bool 0 x) then 0%Q else x) draws else draws in",
+        "  map (fun x => Qred (x / ProfModel.sumq utilities)) (sort_desc utilities).", "",
+        "(* for item_rank in range(m): item = ranked[item_rank]; if isnan(profile_row[item]): break; ans[item] = utilities[item_rank] *)",
+        "Fixpoint gen_dg_fill (profile_row : list (option Q)) (ranked_row : list nat) (utilities : list Q) (item_rank : nat) (ans : list (option Q)) : list (option Q) :=",
+        "  match ranked_row with [] => ans | item :: rest =>",
+        "    match nth item profile_row None with None => ans | Some _ => gen_dg_fill profile_row rest utilities (S item_rank) (upd ans item (Some (nth item_rank utilities 0%Q))) end end.", "",
+        "(* one agent; ans = profile * 0.0 keeps NaN and turns every rank into 0.0 *)",
+        "Definition gen_dg_row (clip : bool) (profile_row : list (option Q)) (ranked_row : list nat) (draws : list Q) : list (option Q) :=",
+        "  gen_dg_fill profile_row ranked_row (gen_dg_utilities clip draws) 0 (map (fun x : option Q => match x with Some _ => Some 0%Q | None => None end) profile_row).", "",
+        "Definition gen_dg_uniform_clips : bool := %s." % ("true" if uc else "false"),
+        "Definition gen_dg_normal_clips : bool := %s." % ("true" if nc else "false"), ""])
+
+def translate_ordinal(repo):
+    src = open(os.path.join(repo, "socialchoicekit", "profile_utils.py")).read()
+    mod = ast.parse(src)
+    f = _find(mod.body, ast.FunctionDef, "compute_ordinal_profile")
+    a = [x.arg for x in f.args.args]
+    if len(a) != 1 or f.args.defaults or f.args.vararg or f.args.kwarg or f.args.kwonlyargs: _fail(f, "compute_ordinal_profile(cardinal_profile) expected")
+    CP = a[0]; b = _body(f); got = [re.sub(r"\s+", " ", U(s)) for s in b]
+    if len(b) != 7: _fail(f, "7 statements expected, got %d" % len(b))
+    g1 = re.fullmatch(r"(\w+) = %s\.shape\[0\]" % CP, got[0]); g2 = re.fullmatch(r"(\w+) = %s\.shape\[1\]" % CP, got[1])
+    g3 = re.fullmatch(r"(\w+) = np\.argsort\(%s \* -1, axis=1\)\.view\(np\.ndarray\)" % CP, got[2])
+    g4 = re.fullmatch(r"(\w+) = %s\.view\(np\.ndarray\) \* 0" % CP, got[3])
+    if not (g1 and g2 and g3 and g4): _fail(f, "n, m, ranked_profile (descending argsort), ans = cardinal_profile * 0 expected")
+    N, M, RK, ANS = g1.group(1), g2.group(1), g3.group(1), g4.group(1)
+    lo = b[4]
+    if not (isinstance(lo, ast.For) and not lo.orelse and isinstance(lo.target, ast.Name) and U(lo.iter) == "range(%s)" % N and len(lo.body) == 1): _fail(lo, "for agent in range(n) expected")
+    AG = lo.target.id; li = lo.body[0]
+    if not (isinstance(li, ast.For) and not li.orelse and isinstance(li.target, ast.Name) and U(li.iter) == "range(%s)" % M and len(li.body) == 1): _fail(li, "for item_rank in range(m) expected")
+    IR = li.target.id
+    g = re.fullmatch(r"%s\[%s, %s\[%s, %s\]\] \+= %s \+ (\d+)" % (ANS, AG, RK, AG, IR, IR), U(li.body[0]))
+    if not g: _fail(li.body[0], "ans[agent, ranked_profile[agent, item_rank]] += item_rank + 1 expected")
+    off = int(g.group(1))
+    if got[5] != "if isinstance(%s, CompleteValuationProfile): return StrictCompleteProfile.of(%s)" % (CP, ANS) or got[6] != "return StrictIncompleteProfile.of(%s)" % ANS: _fail(b[5], "the two wrapping returns expected")
+    if len({CP, N, M, RK, ANS, AG, IR}) != 7: _fail(f, "names must be pairwise distinct")
+    return "\n".join([
+        "(* GENERATED by harness/translate.py from compute_ordinal_profile (profile_utils.py:%d). Do not edit. *)" % f.lineno,
+        "From Coq Require Import ZArith QArith List Bool.", "Import ListNotations.", "From SCK Require Import Eat3.", "",
+        "(* NaN + x = NaN *)",
+        "Definition gen_ord_add (a b : option Q) : option Q := match a, b with Some x, Some y => Some (x + y)%Q | _, _ => None end.",
+        "(* for item_rank in range(m): ans[ranked[item_rank]] += item_rank + %d *)" % off,
+        "Fixpoint gen_ord_fill (ranked_row : list nat) (item_rank : nat) (ans : list (option Q)) : list (option Q) :=",
+        "  match ranked_row with [] => ans | item :: rest =>",
+        "    gen_ord_fill rest (S item_rank) (upd ans item (gen_ord_add (nth item ans None) (Some (inject_Z (Z.of_nat (item_rank + %d)))))) end." % off, "",
+        "(* one agent; ans = cardinal_profile * 0 keeps NaN and turns every value into 0; ranked_row = np.argsort(-values) is an input (numpy's sort) *)",
+        "Definition gen_ord_row (cardinal_row : list (option Q)) (ranked_row : list nat) : list (option Q) :=",
+        "  gen_ord_fill ranked_row 0 (map (fun x : option Q => match x with Some _ => Some 0%Q | None => None end) cardinal_row).", ""])
+
+
+# ---------------------------------------------------------------------------------------------------------------
+# Irving.scf: the pipeline of stage calls
+
+def _norm(node):
+    s = re.sub(r"\s+", " ", U(node))
+    s = re.sub(r"for \((\w+), (\w+)\) in", r"for \1, \2 in", s)
+    return re.sub(r"^\((\w+), (\w+)\) = ", r"\1, \2 = ", s)
+
+def translate_irvscf(repo):
+    src = open(os.path.join(repo, "socialchoicekit", "deterministic_matching.py")).read()
+    mod = ast.parse(src)
+    cls = _find(mod.body, ast.ClassDef, "Irving")
+    ini = _find(cls.body, ast.FunctionDef, "__init__")
+    ib = [U(x) for x in _body(ini)]
+    g = re.fullmatch(r"self\.index_fixer = (\d+) if zero_indexed else (\d+)", ib[0]) if len(ib) == 1 else None
+    if not g: _fail(ini, "Irving.__init__: self.index_fixer = 0 if zero_indexed else 1 expected")
+    f0, f1 = g.group(1), g.group(2)
+    f = _find(cls.body, ast.FunctionDef, "scf")
+    a = [x.arg for x in f.args.args]
+    if len(a) != 5 or [U(d) for d in f.args.defaults] != ["None", "None"] or f.args.vararg or f.args.kwarg or f.args.kwonlyargs: _fail(f, "scf(self, V1, V2, profile_1=None, profile_2=None) expected")
+    V1, V2, P1, P2 = a[1:]
+    got = [_norm(s) for s in _body(f)]
+    O1, O2, N, SM, L1, L2, I1, I2, RO, EL, PP, CS, RE, ANS = ("ordinal_profile_1", "ordinal_profile_2", "n", "stable_matching", "preference_lists_1", "preference_lists_2",
+        "initial_preference_lists_1", "initial_preference_lists_2", "rotations", "eliminating_rotation_of_pair", "P_prime", "maximum_weight_closed_subset", "rotations_to_eliminate", "ans")
+    def branch(P, V, O):
+        return ("if isinstance(%s, StrictCompleteProfile): check_profile(%s, is_complete=True, is_strict=True) %s = %s.view(np.ndarray) else: %s = compute_ordinal_profile(%s).view(np.ndarray)" % (P, P, O, P, O, V))
+    want = ["check_valuation_profile(%s, is_complete=True)" % V1, "check_valuation_profile(%s, is_complete=True)" % V2, branch(P1, V1, O1), branch(P2, V2, O2),
+            "%s = %s.shape[0]" % (N, V1), "assert (%s, %s) == %s.shape" % (N, N, V1), "assert (%s, %s) == %s.shape" % (N, N, V2), "assert (%s, %s) == %s.shape" % (N, N, O1), "assert (%s, %s) == %s.shape" % (N, N, O2),
+            "%s = GaleShapley(resident_oriented=True, zero_indexed=True).scf(StrictCompleteProfile.of(%s), StrictCompleteProfile.of(%s), np.ones(%s, dtype=int))" % (SM, O1, O2, N),
+            "assert len(%s) == %s" % (SM, N), "assert len(set([i for i, _ in %s])) == %s" % (SM, N), "assert len(set([j for _, j in %s])) == %s" % (SM, N),
+            "%s, %s = self.find_initial_preference_lists(%s, %s - 1, %s - 1)" % (L1, L2, SM, O1, O2),
+            "%s = {i: np.array(%s[i]) for i in range(%s)}" % (I1, L1, N), "%s = {i: np.array(%s[i]) for i in range(%s)}" % (I2, L2, N),
+            "%s, %s = self.find_all_rotations_and_eliminations(%s, %s)" % (RO, EL, I1, I2),
+            "%s = self.construct_sparse_rotation_poset_graph(%s, %s, %s)" % (PP, RO, L1, EL),
+            "%s = self.find_maximum_weight_closed_subset(%s, %s, %s, %s)" % (CS, PP, RO, V1, V2),
+            "%s = [%s[i] for i in sorted(%s)]" % (RE, RO, CS),
+            "%s = self.eliminate_rotations(%s, %s)" % (ANS, SM, RE),
+            "return [(i + self.index_fixer, j + self.index_fixer) for i, j in %s]" % ANS]
+    if len(got) != len(want): _fail(f, "Irving.scf: %d statements expected, got %d" % (len(want), len(got)))
+    for k, (g_, w_) in enumerate(zip(got, want)):
+        if g_ != w_: _fail(_body(f)[k], "Irving.scf statement %d: %r expected, got %r" % (k, w_, g_))
+    return "\n".join([
+        "(* GENERATED by harness/translate.py from Irving.__init__ / Irving.scf (deterministic_matching.py:%d): the pipeline of stage calls. Do not edit. *)" % f.lineno,
+        "From Coq Require Import Arith ZArith List Bool.", "Import ListNotations.", "",
+        "Definition gen_irv_fixer (zero_indexed : bool) : nat := if zero_indexed then %s else %s." % (f0, f1),
+        "(* the three assertions on the Gale-Shapley matching: n pairs, n distinct men, n distinct women *)",
+        "Definition gen_irv_perfect (stable_matching : list (nat * nat)) (n : nat) : bool :=",
+        "  (length stable_matching =? n) && (length (nodup Nat.eq_dec (map fst stable_matching)) =? n) && (length (nodup Nat.eq_dec (map snd stable_matching)) =? n).", "",
+        "(* ordinal profiles: the ones supplied (ranks from 1), or else compute_ordinal_profile of the valuations - `ordinal` abstracts that choice;",
+        "   the stages are parameters: gs = GaleShapley(resident_oriented=True, zero_indexed=True).scf, lists = find_initial_preference_lists, all_rotations =",
+        "   find_all_rotations_and_eliminations (given copies of the lists), poset = construct_sparse_rotation_poset_graph, closed = find_maximum_weight_closed_subset,",
+        "   eliminate = eliminate_rotations. None = the stage raises. *)",
+        "Section Glue.",
+        "Variables (Rot Elim Poset Val : Type).",
+        "Variable gs : list (list nat) -> list (list nat) -> list nat -> option (list (nat * nat)).",
+        "Variable lists : list (nat * nat) -> list (list nat) -> list (list nat) -> option (list (list nat) * list (list nat)).",
+        "Variable all_rotations : list (list nat) -> list (list nat) -> option (list Rot * Elim).",
+        "Variable poset : list Rot -> list (list nat) -> Elim -> option Poset.",
+        "Variable closed : Poset -> list Rot -> Val -> Val -> option (list nat).",
+        "Variable sorted : list nat -> list nat.",
+        "Variable eliminate : list (nat * nat) -> list Rot -> option (list (nat * nat)).",
+        "Variable norot : Rot.",
+        "Definition gen_irv_scf (index_fixer : nat) (%s %s : Val) (%s %s : list (list nat)) : option (list (nat * nat)) :=" % (V1, V2, O1, O2),
+        "  let %s := length %s in" % (N, O1),
+        "  match gs %s %s (repeat 1 %s) with None => None | Some %s =>" % (O1, O2, N, SM),
+        "  if negb (gen_irv_perfect %s %s) then None else" % (SM, N),
+        "  match lists %s (map (map (fun r => r - 1)) %s) (map (map (fun r => r - 1)) %s) with None => None | Some (%s, %s) =>" % (SM, O1, O2, L1, L2),
+        "  match all_rotations %s %s with None => None | Some (%s, %s) =>" % (L1, L2, RO, EL),
+        "  match poset %s %s %s with None => None | Some %s =>" % (RO, L1, EL, PP),
+        "  match closed %s %s %s %s with None => None | Some %s =>" % (PP, RO, V1, V2, CS),
+        "  let %s := map (fun i => nth i %s norot) (sorted %s) in" % (RE, RO, CS),
+        "  match eliminate %s %s with None => None | Some %s =>" % (SM, RE, ANS),
+        "  Some (map (fun ij : nat * nat => (fst ij + index_fixer, snd ij + index_fixer)) %s) end end end end end end." % ANS,
+        "End Glue.", ""])
+
+
+# ---------------------------------------------------------------------------------------------------------------
+# MatchTwoQueries and LambdaPRV.score as query programs
+
+def _n(node):
+    return re.sub(r"\s+", " ", U(node))
+
+def translate_m2q(repo):
+    src = open(os.path.join(repo, "socialchoicekit", "elicitation_allocation.py")).read()
+    mod = ast.parse(src)
+    cls = _find(mod.body, ast.ClassDef, "MatchTwoQueries")
+    if [x.name for x in cls.body if isinstance(x, ast.FunctionDef)] != ["__init__", "scf", "get_simulated_cardinal_profile"]: _fail(cls, "__init__, scf, get_simulated_cardinal_profile expected in MatchTwoQueries")
+    ib = [_n(x) for x in _body(_find(cls.body, ast.FunctionDef, "__init__"))]
+    g = re.fullmatch(r"self\.index_fixer = (\d+) if zero_indexed else (\d+)", ib[1]) if len(ib) == 2 else None
+    if not (g and ib[0] == "self.mwm = MaximumWeightMatching(zero_indexed=zero_indexed)"): _fail(cls, "MatchTwoQueries.__init__ shape")
+    f0, f1 = g.group(1), g.group(2)
+    sc = _find(cls.body, ast.FunctionDef, "scf"); a = [x.arg for x in sc.args.args]
+    sb = [_n(x) for x in _body(sc)]
+    g = re.fullmatch(r"(\w+) = self\.get_simulated_cardinal_profile\(%s, %s\)" % (a[1], a[2]), sb[0]) if len(sb) == 2 and len(a) == 3 else None
+    if not (g and sb[1] == "return self.mwm.scf(IncompleteValuationProfile.of(%s))" % g.group(1)): _fail(sc, "MatchTwoQueries.scf: simulated profile, then maximum weight matching expected")
+    f = _find(cls.body, ast.FunctionDef, "get_simulated_cardinal_profile"); a = [x.arg for x in f.args.args]
+    if len(a) != 3: _fail(f, "get_simulated_cardinal_profile(self, profile, elicitor) expected")
+    PR, EL = a[1], a[2]; b = _body(f); got = [_n(x) for x in b]
+    if len(b) != 9: _fail(f, "9 statements expected, got %d" % len(b))
+    if got[0] != "if not isinstance(%s, StrictProfile): raise ValueError('Profile must be a StrictProfile for now')" % PR: _fail(b[0], "type guard expected")
+    g1 = re.fullmatch(r"(\w+) = %s\.shape\[0\]" % PR, got[1]); g2 = re.fullmatch(r"(\w+) = np\.argsort\(%s, axis=1\)\.view\(np\.ndarray\)" % PR, got[2])
+    g3 = re.fullmatch(r"(\w+) = ([0-9.e+-]+)", got[3])
+    if not (g1 and g2 and g3): _fail(f, "n, ranked_profile, epsilon expected")
+    N, RK, EPS = g1.group(1), g2.group(1), g3.group(1); eps = Fraction(g3.group(2))
+    g4 = re.fullmatch(r"(\w+) = %s\.view\(np\.ndarray\) \* 0 \+ %s" % (PR, EPS), got[4])
+    if not g4: _fail(b[4], "v_tilde = profile * 0 + epsilon expected")
+    VT = g4.group(1)
+    if got[5] != "%s[np.arange(%s), %s[:, 0]] = %s.elicit_multiple(np.arange(%s), %s[:, 0])" % (VT, N, RK, EL, N, RK): _fail(b[5], "favourites asked in one batch expected")
+    g6 = re.fullmatch(r"(\w+) = root_n_serial_dictatorship\(%s\)" % PR, got[6])
+    if not g6: _fail(b[6], "A = root_n_serial_dictatorship(profile) expected")
+    A = g6.group(1)
+    if got[8] != "return IncompleteValuationProfile.of(%s)" % VT: _fail(b[8], "return of the simulated profile expected")
+    lo = b[7]
+    if not (isinstance(lo, ast.For) and not lo.orelse and isinstance(lo.target, ast.Name) and _n(lo.iter) == "range(%s)" % N and len(lo.body) == 5): _fail(lo, "for i in range(n) with five statements expected")
+    I = lo.target.id; s = [_n(x) for x in lo.body]
+    g = re.fullmatch(r"(\w+) = %s\[%s\]" % (A, I), s[0])
+    if not g: _fail(lo.body[0], "j = A[i] expected")
+    J = g.group(1)
+    if s[1] != "%s[%s, %s[%s]] = %s.elicit(%s, %s)" % (VT, I, A, I, EL, I, J): _fail(lo.body[1], "second query expected")
+    g = re.fullmatch(r"(\w+) = int\(%s\[%s, %s\]\)" % (PR, I, J), s[2])
+    if not g: _fail(lo.body[2], "current_rank = int(profile[i, j]) expected")
+    CR = g.group(1)
+    if s[3] != "%s -= 1" % CR: _fail(lo.body[3], "current_rank -= 1 expected")
+    w = lo.body[4]
+    want = "while %s > 1: %s = %s[%s, %s - 1] %s[%s, %s] = %s[%s, %s[%s]] %s -= 1" % (CR, J, RK, I, CR, VT, I, J, VT, I, A, I, CR)
+    if not isinstance(w, ast.While) or w.orelse or _n(w) != want: _fail(w, "copy loop: %r expected, got %r" % (want, _n(w)))
+    if len({PR, EL, N, RK, EPS, VT, A, I, J, CR}) != 10: _fail(f, "names must be pairwise distinct")
+    # LambdaPRV.score
+    src2 = open(os.path.join(repo, "socialchoicekit", "elicitation_voting.py")).read()
+    m2 = ast.parse(src2)
+    pf = _find(_find(m2.body, ast.ClassDef, "LambdaPRV").body, ast.FunctionDef, "score"); pa = [x.arg for x in pf.args.args]
+    pb = [_n(x) for x in _body(pf)]
+    P2, E2 = pa[1], pa[2]
+    wantp = ["if self.lambda_ > %s.shape[1]: raise ValueError('Invalid lambda')" % P2,
+             "j_indices = np.argpartition(-%s, -self.lambda_, axis=1)[:, -self.lambda_:].flatten()" % P2,
+             "i_indices = (np.arange(%s.shape[0]).reshape(-1, 1) * np.ones(self.lambda_, dtype=int)).flatten()" % P2,
+             "ans = np.zeros(%s.shape[1])" % P2,
+             "for i, j in zip(i_indices, j_indices): ans[j] += %s.elicit(i, j)" % E2,
+             "return ans"]
+    pbn = [re.sub(r"for \((\w+), (\w+)\) in", r"for \1, \2 in", x) for x in pb]
+    if pbn != wantp: _fail(pf, "LambdaPRV.score shape: %r" % (pbn,))
+    return "\n".join([
+        "(* GENERATED by harness/translate.py from MatchTwoQueries (elicitation_allocation.py:%d) and LambdaPRV.score (elicitation_voting.py:%d). Do not edit. *)" % (f.lineno, pf.lineno),
+        "From Coq Require Import ZArith QArith List Bool.", "Import ListNotations.", "From SCK Require Import ElicitM ElicitRules.", "Local Open Scope Z_scope.", "",
+        "Definition gen_m2q_fixer (zero_indexed : bool) : Z := if zero_indexed then %s else %s." % (f0, f1),
+        "Definition gen_m2q_epsilon : Q := %d # %d." % (eps.numerator, eps.denominator), "",
+        "(* while %s > 1: %s = %s[%s, %s - 1]; %s[%s, %s] = %s[%s, %s[%s]]; %s -= 1      (row = %s[%s], a = %s[%s]; at most m passes) *)" % (CR, J, RK, I, CR, VT, I, J, VT, I, A, I, CR, VT, I, A, I),
+        "Fixpoint gen_m2q_copy (ranked_row : list Z) (a : Z) (fuel : nat) (%s : Z) (row : list Q) : list Q :=" % CR,
+        "  match fuel with O => row | S f =>",
+        "    if %s >? 1 then let %s := rkat ranked_row (%s - 1) in gen_m2q_copy ranked_row a f (%s - 1) (updz row (Z.to_nat %s) (nth (Z.to_nat a) row 0%%Q)) else row end." % (CR, J, CR, CR, J), "",
+        "(* get_simulated_cardinal_profile as a query program: %s = the rows' argsort, %s = root_n_serial_dictatorship(profile) are inputs *)" % (RK, A),
+        "Definition gen_m2q (%s : list (list Z)) (%s : list (list Z)) (%s : list Z) (%s m : nat) : prog (list (list Q)) :=" % (PR, RK, A, N),
+        "  vfav <- mapP (fun i_ => Ask (Z.of_nat i_, rkat (nth i_ %s []) 0) (fun v_ => Ret v_)) (seq 0 %s) ;;" % (RK, N),
+        "  let %s := map (fun i_ => updz (repeat gen_m2q_epsilon m) (Z.to_nat (rkat (nth i_ %s []) 0)) (nth i_ vfav 0%%Q)) (seq 0 %s) in" % (VT, RK, N),
+        "  foldP (fun (%s : list (list Q)) (%s : nat) =>" % (VT, I),
+        "           let %s := nth %s %s 0 in" % (J, I, A),
+        "           Ask (Z.of_nat %s, %s) (fun v_ =>" % (I, J),
+        "             let row := updz (nth %s %s []) (Z.to_nat (nth %s %s 0)) v_ in" % (I, VT, I, A),
+        "             let %s := nth (Z.to_nat %s) (nth %s %s []) 0 in" % (CR, J, I, PR),
+        "             let %s := %s - 1 in" % (CR, CR),
+        "             Ret (updz %s %s (gen_m2q_copy (nth %s %s []) (nth %s %s 0) m %s row)))) (seq 0 %s) %s." % (VT, I, I, RK, I, A, CR, N, VT), "",
+        "(* LambdaPRV.score: the top-lambda columns of every row (np.argpartition: which columns, in an order numpy chooses - `top`), one query each, accumulated per alternative *)",
+        "Definition gen_prv_score (top : list (list Z)) (n m : nat) : prog (list Q) :=",
+        "  foldP (fun (ans : list Q) (ij : nat * Z) => Ask (Z.of_nat (fst ij), snd ij) (fun v_ => Ret (updz ans (Z.to_nat (snd ij)) (Qred (nth (Z.to_nat (snd ij)) ans 0%Q + v_)))))",
+        "        (flat_map (fun i_ => map (fun j_ => (i_, j_)) (nth i_ top [])) (seq 0 n)) (repeat 0%Q m).", ""])
+
+
+# ---------------------------------------------------------------------------------------------------------------
+# Irving's stages, statements matched one by one (exceptions as None): poset, shortlists, rotation search, rotation bookkeeping; flow.reachable_vertices
+
+def _structure(stmts, ind=0):
+    """normalised, indentation-structured listing of a statement list (tuple targets without parentheses)"""
+    out = []
+    for s in stmts:
+        if isinstance(s, ast.For):
+            if s.orelse: _fail(s, "for-else")
+            out.append(" " * ind + "for %s in %s:" % (U(s.target).strip("()"), U(s.iter))); out += _structure(s.body, ind + 2)
+        elif isinstance(s, ast.While):
+            if s.orelse: _fail(s, "while-else")
+            out.append(" " * ind + "while %s:" % U(s.test)); out += _structure(s.body, ind + 2)
+        elif isinstance(s, ast.If):
+            out.append(" " * ind + "if %s:" % U(s.test)); out += _structure(s.body, ind + 2)
+            if s.orelse:
+                out.append(" " * ind + "else:"); out += _structure(s.orelse, ind + 2)
+        else:
+            out.append(" " * ind + re.sub(r"\s+", " ", U(s)))
+    return out
+
+POSET_SHAPE = """P_prime = {pi: [] for pi in range(len(rotations))}
+n = len(preference_lists_1)
+rotation_of_pair = {}
+for index, rotation in enumerate(rotations):
+  for i, j in rotation:
+    rotation_of_pair[i, j] = index
+for m in range(n):
+  j = 0
+  while j < len(preference_lists_1[m]) - 1:
+    w = preference_lists_1[m][j]
+    if (m, w) not in rotation_of_pair:
+      j += 1
+      continue
+    j_prime = j + 1
+    while j_prime < len(preference_lists_1[m]):
+      w_prime = preference_lists_1[m][j_prime]
+      if (m, w_prime) in rotation_of_pair:
+        pi = rotation_of_pair[m, w]
+        rho = rotation_of_pair[m, w_prime]
+        if rho not in P_prime[pi]:
+          P_prime[pi].append(rho)
+        break
+      else:
+        if (m, w_prime) in eliminating_rotation_of_pair:
+          pi = eliminating_rotation_of_pair[m, w_prime]
+          rho = rotation_of_pair[m, w]
+          rotation = rotations[rho]
+          w_next = rotation[(rotation.index((m, w)) + 1) % len(rotation)][1]
+          w_rank = np.where(preference_lists_1[m] == w_prime)[0][0]
+          w_next_rank = np.where(preference_lists_1[m] == w_next)[0][0]
+          if w_rank < w_next_rank:
+            if rho not in P_prime[pi]:
+              P_prime[pi].append(rho)
+      j_prime += 1
+    j = j_prime
+return P_prime"""
+
+POSET_GALLINA = r"""(* Every lookup that raises in Python (a missing dictionary key, list.index / np.where(..)[0][0] of an absent element, an index out of range, % 0) makes the
+   generated function return None. Dictionaries keyed by pairs are association lists (Irving.aget / aset), P_prime is the list of its values in key order 0, 1, ... *)
+Section GenPoset.
+Variables (rotations : list rot) (preference_lists_1 : list (list nat)) (eliminating_rotation_of_pair : list ((nat * nat) * nat)).
+(* rotation_of_pair = {}; for index, rotation in enumerate(rotations): for i, j in rotation: rotation_of_pair[i, j] = index *)
+Definition gen_rotation_of_pair : list ((nat * nat) * nat) :=
+  fold_left (fun rotation_of_pair ir => fold_left (fun rotation_of_pair ij => aset rotation_of_pair ij (fst ir)) (snd ir) rotation_of_pair) (combine (seq 0 (length rotations)) rotations) [].
+(* if rho not in P_prime[pi]: P_prime[pi].append(rho) *)
+Definition gen_poset_add (P_prime : list (list nat)) (pi rho : nat) : option (list (list nat)) :=
+  if (pi <? length P_prime)%nat then Some (if negb (memn rho (nthl P_prime pi)) then upd P_prime pi (nthl P_prime pi ++ [rho]) else P_prime) else None.
+(* the inner while loop; result: P_prime and j_prime at the break or at the exit *)
+Fixpoint gen_poset_inner (fuel : nat) (m w : nat) (j_prime : nat) (P_prime : list (list nat)) : option (list (list nat) * nat) :=
+  match fuel with O => None | S f =>
+    if negb (j_prime <? length (nthl preference_lists_1 m))%nat then Some (P_prime, j_prime) else
+    let w_prime := nthn (nthl preference_lists_1 m) j_prime in
+    if (match aget gen_rotation_of_pair (m, w_prime) with Some _ => true | None => false end) then
+      match aget gen_rotation_of_pair (m, w) with None => None | Some pi =>
+      match aget gen_rotation_of_pair (m, w_prime) with None => None | Some rho =>
+      match gen_poset_add P_prime pi rho with None => None | Some P_prime => Some (P_prime, j_prime) (* break *) end end end
+    else
+      match (if (match aget eliminating_rotation_of_pair (m, w_prime) with Some _ => true | None => false end) then
+               match aget eliminating_rotation_of_pair (m, w_prime) with None => None | Some pi =>
+               match aget gen_rotation_of_pair (m, w) with None => None | Some rho =>
+               match nth_error rotations rho with None => None | Some rotation =>
+               match pindex_of (m, w) rotation with None => None | Some k_ =>
+               if (length rotation =? 0)%nat then None else
+               let w_next := snd (nth ((k_ + 1) mod (length rotation)) rotation (O, O)) in
+               match index_of w_prime (nthl preference_lists_1 m) with None => None | Some w_rank =>
+               match index_of w_next (nthl preference_lists_1 m) with None => None | Some w_next_rank =>
+               if (w_rank <? w_next_rank)%nat then gen_poset_add P_prime pi rho else Some P_prime end end end end end end
+             else Some P_prime) with
+      | None => None
+      | Some P_prime => gen_poset_inner f m w (S j_prime) P_prime
+      end
+  end.
+(* the outer while loop of one man *)
+Fixpoint gen_poset_outer (fuel : nat) (m : nat) (j : nat) (P_prime : list (list nat)) : option (list (list nat)) :=
+  match fuel with O => None | S f =>
+    if negb (j <? length (nthl preference_lists_1 m) - 1)%nat then Some P_prime else
+    let w := nthn (nthl preference_lists_1 m) j in
+    if negb (match aget gen_rotation_of_pair (m, w) with Some _ => true | None => false end) then gen_poset_outer f m (j + 1) P_prime (* continue *) else
+    let j_prime := (j + 1)%nat in
+    match gen_poset_inner (S (length (nthl preference_lists_1 m))) m w j_prime P_prime with None => None | Some (P_prime, j_prime) =>
+    let j := j_prime in gen_poset_outer f m j P_prime end
+  end.
+Definition gen_poset : option (list (list nat)) :=
+  let P_prime := repeat [] (length rotations) in
+  let n := length preference_lists_1 in
+  fold_left (fun P_prime m => match P_prime with None => None | Some P_prime => gen_poset_outer (S (length (nthl preference_lists_1 m))) m 0 P_prime end) (seq 0 n) (Some P_prime).
+End GenPoset.
+"""
+
+def translate_irvposet(repo):
+    src = open(os.path.join(repo, "socialchoicekit", "deterministic_matching.py")).read()
+    cls = _find(ast.parse(src).body, ast.ClassDef, "Irving")
+    f = _find(cls.body, ast.FunctionDef, "construct_sparse_rotation_poset_graph")
+    a = [x.arg for x in f.args.args]
+    if a != ["self", "rotations", "preference_lists_1", "eliminating_rotation_of_pair"] or f.args.defaults or f.args.vararg or f.args.kwarg or f.args.kwonlyargs:
+        _fail(f, "construct_sparse_rotation_poset_graph(self, rotations, preference_lists_1, eliminating_rotation_of_pair) expected")
+    got = _structure(_body(f)); want = POSET_SHAPE.split("\n")
+    for k in range(max(len(got), len(want))):
+        g_ = got[k] if k < len(got) else "<end>"; w_ = want[k] if k < len(want) else "<end>"
+        if g_ != w_: _fail(f, "construct_sparse_rotation_poset_graph, statement %d: %r expected, got %r" % (k + 1, w_.strip(), g_.strip()))
+    return "\n".join(["(* GENERATED by harness/translate.py from Irving.construct_sparse_rotation_poset_graph (deterministic_matching.py:%d), whose statements were matched one by one. Do not edit. *)" % f.lineno,
+                      "From Coq Require Import Arith ZArith List Bool.", "Import ListNotations.", "From SCK Require Import FlowModel Mwcs Irving.", "", POSET_GALLINA])
+
+REACH_SHAPE = """ans = set()
+frontier = set([s])
+while True:
+  if len(frontier) == 0:
+    break
+  current_node = frontier.pop()
+  if current_node not in ans:
+    ans.add(current_node)
+    for v, c in G[current_node]:
+      if c > 0:
+        frontier.add(v)
+return ans"""
+
+REACH_GALLINA = r"""(* Python sets are duplicate-free lists; set.pop() removes and returns an ARBITRARY element: `pop` is an oracle that picks one (assumed only to pick a member).
+   G[current_node] raises KeyError for a vertex that is not a key: None. fuel bounds the number of passes of `while True`. *)
+Definition gen_set_add (x : Z) (l : list Z) : list Z := if memZ x l then l else l ++ [x].
+Fixpoint gen_reach_loop (pop : list Z -> Z) (G : graph) (fuel : nat) (frontier ans : list Z) : option (list Z) :=
+  match fuel with O => None | S f =>
+    if (length frontier =? 0)%nat then Some ans (* break *) else
+    let current_node := pop frontier in
+    let frontier := remove Z.eq_dec current_node frontier in
+    if negb (memZ current_node ans) then
+      let ans := gen_set_add current_node ans in
+      if negb (memZ current_node (keys G)) then None else
+      let frontier := fold_left (fun frontier vc => if snd vc >? 0 then gen_set_add (fst vc) frontier else frontier) (lookup G current_node) frontier in
+      gen_reach_loop pop G f frontier ans
+    else gen_reach_loop pop G f frontier ans
+  end.
+Definition gen_reachable_vertices (pop : list Z -> Z) (G : graph) (fuel : nat) (s : Z) : option (list Z) := gen_reach_loop pop G fuel [s] [].
+"""
+
+def translate_reach(repo):
+    src = open(os.path.join(repo, "socialchoicekit", "flow.py")).read()
+    f = _find(ast.parse(src).body, ast.FunctionDef, "reachable_vertices")
+    a = [x.arg for x in f.args.args]
+    if a != ["G", "s"] or f.args.defaults or f.args.vararg or f.args.kwarg or f.args.kwonlyargs: _fail(f, "reachable_vertices(G, s) expected")
+    got = _structure(_body(f)); want = REACH_SHAPE.split("\n")
+    for k in range(max(len(got), len(want))):
+        g_ = got[k] if k < len(got) else "<end>"; w_ = want[k] if k < len(want) else "<end>"
+        if g_ != w_: _fail(f, "reachable_vertices, statement %d: %r expected, got %r" % (k + 1, w_.strip(), g_.strip()))
+    return "\n".join(["(* GENERATED by harness/translate.py from reachable_vertices (flow.py:%d), whose statements were matched one by one. Do not edit. *)" % f.lineno,
+                      "From Coq Require Import Arith ZArith List Bool.", "Import ListNotations.", "From SCK Require Import FlowModel.", "Local Open Scope Z_scope.", "", REACH_GALLINA])
+
+INIT_SHAPE = """profile_1 = np.asarray(profile_1).astype(np.int64)
+profile_2 = np.asarray(profile_2).astype(np.int64)
+n = profile_1.shape[0]
+ranked_profile_1 = np.argsort(profile_1, axis=1)
+ranked_profile_2 = np.argsort(profile_2, axis=1)
+preference_lists_1 = {i: ranked_profile_1[i, profile_1[i, j]:] for i, j in stable_marriage}
+preference_lists_2 = {j: ranked_profile_2[j, :profile_2[j, i] + 1] for i, j in stable_marriage}
+new_preference_lists_1 = {}
+new_preference_lists_2 = {}
+for i in range(n):
+  new_preference_lists_1[i] = np.array([])
+  for j in preference_lists_1[i]:
+    if i in preference_lists_2[j]:
+      new_preference_lists_1[i] = np.append(new_preference_lists_1[i], j)
+for j in range(n):
+  new_preference_lists_2[j] = np.array([])
+  for i in preference_lists_2[j]:
+    if j in new_preference_lists_1[i]:
+      new_preference_lists_2[j] = np.append(new_preference_lists_2[j], i)
+for i in range(n):
+  new_preference_lists_1[i] = new_preference_lists_1[i].astype(np.int64)
+  new_preference_lists_2[i] = new_preference_lists_2[i].astype(np.int64)
+return (new_preference_lists_1, new_preference_lists_2)"""
+
+INIT_GALLINA = r"""(* A dictionary built by a comprehension over the matching is the list of its (key, value) pairs in that order; a later pair with the same key overwrites an
+   earlier one, so a lookup takes the LAST pair with the key (gen_dget). A missing key (KeyError) and an index outside a profile (IndexError) give None.
+   np.argsort(profile, axis=1) is the parameter `argsort` applied to every row; the dictionaries returned are the lists of their values for the keys 0 .. n-1. *)
+Definition gen_dget {V} (d : list (nat * V)) (k : nat) : option V := option_map snd (find (fun p => (fst p =? k)%nat) (rev d)).
+Fixpoint gen_omap {A B} (f : A -> option B) (l : list A) : option (list B) :=
+  match l with [] => Some [] | x :: t => match f x with None => None | Some y => match gen_omap f t with None => None | Some r => Some (y :: r) end end end.
+Fixpoint gen_ofilter {A} (f : A -> option bool) (l : list A) : option (list A) :=
+  match l with [] => Some [] | x :: t => match f x with None => None | Some b => match gen_ofilter f t with None => None | Some r => Some (if b then x :: r else r) end end end.
+Section GenInit.
+Variable argsort : list nat -> list nat.
+Variables (stable_marriage : list (nat * nat)) (profile_1 profile_2 : list (list nat)).
+Definition gen_init_at (P : list (list nat)) (a b : nat) : option nat := match nth_error P a with None => None | Some row => nth_error row b end.   (* P[a, b] *)
+(* preference_lists_1 = {i: ranked_profile_1[i, profile_1[i, j]:] for i, j in stable_marriage} *)
+Definition gen_init_pl1 : option (list (nat * list nat)) :=
+  gen_omap (fun ij : nat * nat => match gen_init_at profile_1 (fst ij) (snd ij) with None => None | Some r => Some (fst ij, skipn r (nthl (map argsort profile_1) (fst ij))) end) stable_marriage.
+(* preference_lists_2 = {j: ranked_profile_2[j, :profile_2[j, i] + 1] for i, j in stable_marriage} *)
+Definition gen_init_pl2 : option (list (nat * list nat)) :=
+  gen_omap (fun ij : nat * nat => match gen_init_at profile_2 (snd ij) (fst ij) with None => None | Some r => Some (snd ij, firstn (r + 1) (nthl (map argsort profile_2) (snd ij))) end) stable_marriage.
+Definition gen_initial_lists : option (list (list nat) * list (list nat)) :=
+  let n := length profile_1 in
+  match gen_init_pl1 with None => None | Some preference_lists_1 =>
+  match gen_init_pl2 with None => None | Some preference_lists_2 =>
+  (* for i in range(n): new_1[i] = [j for j in preference_lists_1[i] if i in preference_lists_2[j]] *)
+  match gen_omap (fun i => match gen_dget preference_lists_1 i with None => None | Some l =>
+                   gen_ofilter (fun j => option_map (memn i) (gen_dget preference_lists_2 j)) l end) (seq 0 n) with None => None | Some new_preference_lists_1 =>
+  (* for j in range(n): new_2[j] = [i for i in preference_lists_2[j] if j in new_1[i]] *)
+  match gen_omap (fun j => match gen_dget preference_lists_2 j with None => None | Some l =>
+                   gen_ofilter (fun i => option_map (memn j) (nth_error new_preference_lists_1 i)) l end) (seq 0 n) with None => None | Some new_preference_lists_2 =>
+  Some (new_preference_lists_1, new_preference_lists_2) end end end end.
+End GenInit.
+"""
+
+def translate_irvinit(repo):
+    src = open(os.path.join(repo, "socialchoicekit", "deterministic_matching.py")).read()
+    cls = _find(ast.parse(src).body, ast.ClassDef, "Irving")
+    f = _method(cls, "find_initial_preference_lists", True)
+    a = [x.arg for x in f.args.args]
+    if a != ["stable_marriage", "profile_1", "profile_2"] or f.args.defaults or f.args.vararg or f.args.kwarg or f.args.kwonlyargs: _fail(f, "find_initial_preference_lists(stable_marriage, profile_1, profile_2) expected")
+    got = [re.sub(r"for \((\w+), (\w+)\) in", r"for \1, \2 in", x) for x in _structure(_body(f))]; want = INIT_SHAPE.split("\n")
+    for k in range(max(len(got), len(want))):
+        g_ = got[k] if k < len(got) else "<end>"; w_ = want[k] if k < len(want) else "<end>"
+        if g_ != w_: _fail(f, "find_initial_preference_lists, statement %d: %r expected, got %r" % (k + 1, w_.strip(), g_.strip()))
+    return "\n".join(["(* GENERATED by harness/translate.py from Irving.find_initial_preference_lists (deterministic_matching.py:%d), whose statements were matched one by one. Do not edit. *)" % f.lineno,
+                      "From Coq Require Import Arith ZArith List Bool.", "Import ListNotations.", "From SCK Require Import FlowModel Mwcs Irving.", "", INIT_GALLINA])
+
+ROT_SHAPE = """n = len(preference_lists_1)
+assert n == len(preference_lists_2)
+G = {i: [] for i in range(n)}
+for i in range(n):
+  if len(preference_lists_1[i]) <= 1:
+    continue
+  j = preference_lists_1[i][1]
+  i_prime = preference_lists_2[j][-1]
+  if i != i_prime:
+    G[i].append(i_prime)
+visited = [False] * n
+start_point = 0
+cycles = []
+while start_point < n:
+  if visited[start_point]:
+    start_point += 1
+    continue
+  cycle = []
+  current_node = start_point
+  while not visited[current_node]:
+    visited[current_node] = True
+    if len(G[current_node]) == 0:
+      break
+    next_node = G[current_node][0]
+    cycle.append((current_node, preference_lists_1[current_node][0]))
+    current_node = next_node
+  if len(preference_lists_1[current_node]) > 0:
+    start_cycle_pair = (current_node, preference_lists_1[current_node][0])
+    if start_cycle_pair in cycle:
+      index = cycle.index(start_cycle_pair)
+      cycles.append(cycle[index:])
+return cycles"""
+
+ROT_GALLINA = r"""(* The dictionaries of shortlists are the lists of their values for the keys 0 .. n-1. G[i] holds at most one vertex: it is an option. Lookups that raise in
+   Python (preference_lists_2[j] for j outside 0 .. n-1, [-1] of an empty list, visited[v] for v outside 0 .. n-1) give None; so does the failed assertion. *)
+Section GenRot.
+Variables (preference_lists_1 preference_lists_2 : list (list nat)).
+Definition gen_rot_G_entry (i : nat) : option (option nat) :=
+  if (length (nthl preference_lists_1 i) <=? 1)%nat then Some None (* continue *) else
+  let j := nthn (nthl preference_lists_1 i) 1 in
+  match nth_error preference_lists_2 j with None => None | Some l2 =>
+  match l2 with [] => None | _ :: _ => let i_prime := last l2 O in Some (if negb (i =? i_prime)%nat then Some i_prime else None) end end.
+Fixpoint gen_rot_omap {A B} (f : A -> option B) (l : list A) : option (list B) :=
+  match l with [] => Some [] | x :: t => match f x with None => None | Some y => match gen_rot_omap f t with None => None | Some r => Some (y :: r) end end end.
+(* the inner while loop: (current_node, cycle, visited) at its exit *)
+Fixpoint gen_rot_walk (G : list (option nat)) (fuel : nat) (current_node : nat) (cycle : rot) (visited : list bool) : option (nat * rot * list bool) :=
+  match fuel with O => None | S f =>
+    match nth_error visited current_node with None => None | Some v =>
+    if negb (negb v) then Some (current_node, cycle, visited) else
+    let visited := upd visited current_node true in
+    match nth_error G current_node with None => None | Some g =>
+    match g with None => Some (current_node, cycle, visited) (* break *) | Some next_node =>
+    gen_rot_walk G f next_node (cycle ++ [(current_node, nthn (nthl preference_lists_1 current_node) 0)]) visited end end end
+  end.
+(* one pass of the outer while loop with visited[start_point] false, followed by the pass that only increments start_point *)
+Definition gen_rot_start (G : list (option nat)) (n : nat) (st : option (list rot * list bool)) (start_point : nat) : option (list rot * list bool) :=
+  match st with None => None | Some (cycles, visited) =>
+  match nth_error visited start_point with None => None | Some v =>
+  if v then Some (cycles, visited) else
+  match gen_rot_walk G (S n) start_point [] visited with None => None | Some (current_node, cycle, visited) =>
+  if (0 <? length (nthl preference_lists_1 current_node))%nat then
+    let start_cycle_pair := (current_node, nthn (nthl preference_lists_1 current_node) 0) in
+    match pindex_of start_cycle_pair cycle with
+    | Some index => Some (cycles ++ [skipn index cycle], visited)
+    | None => Some (cycles, visited) end
+  else Some (cycles, visited) end end end.
+Definition gen_find_rotations : option (list rot) :=
+  let n := length preference_lists_1 in
+  if negb (n =? length preference_lists_2)%nat then None else
+  match gen_rot_omap gen_rot_G_entry (seq 0 n) with None => None | Some G =>
+  option_map fst (fold_left (gen_rot_start G n) (seq 0 n) (Some ([], repeat false n))) end.
+End GenRot.
+"""
+
+def translate_irvrot(repo):
+    src = open(os.path.join(repo, "socialchoicekit", "deterministic_matching.py")).read()
+    cls = _find(ast.parse(src).body, ast.ClassDef, "Irving")
+    f = _method(cls, "find_rotations", False)
+    a = [x.arg for x in f.args.args]
+    if a != ["self", "preference_lists_1", "preference_lists_2"] or f.args.defaults or f.args.vararg or f.args.kwarg or f.args.kwonlyargs: _fail(f, "find_rotations(self, preference_lists_1, preference_lists_2) expected")
+    got = [re.sub(r"for \((\w+), (\w+)\) in", r"for \1, \2 in", x) for x in _structure(_body(f))]; want = ROT_SHAPE.split("\n")
+    for k in range(max(len(got), len(want))):
+        g_ = got[k] if k < len(got) else "<end>"; w_ = want[k] if k < len(want) else "<end>"
+        if g_ != w_: _fail(f, "find_rotations, statement %d: %r expected, got %r" % (k + 1, w_.strip(), g_.strip()))
+    return "\n".join(["(* GENERATED by harness/translate.py from Irving.find_rotations (deterministic_matching.py:%d), whose statements were matched one by one. Do not edit. *)" % f.lineno,
+                      "From Coq Require Import Arith ZArith List Bool.", "Import ListNotations.", "From SCK Require Import FlowModel Mwcs Irving.", "", ROT_GALLINA])
+
+ALL_SHAPE = """n = len(preference_lists_1)
+assert n == len(preference_lists_2)
+ans = []
+preference_matrix_1 = {(i, j): 1 for i in range(n) for j in preference_lists_1[i]}
+preference_matrix_2 = {(j, i): 1 for j in range(n) for i in preference_lists_2[j]}
+eliminating_rotations_of_pair = {}
+current_rotation = -1
+while True:
+  rotations = self.find_rotations(preference_lists_1, preference_lists_2)
+  if len(rotations) == 0:
+    break
+  ans += rotations
+  for rotation in rotations:
+    current_rotation += 1
+    r = len(rotation)
+    for i in range(r):
+      m_i_minus_1 = rotation[(i - 1) % r][0]
+      w_i = rotation[i][1]
+      k = len(preference_lists_2[w_i]) - 1
+      while k >= 0:
+        if preference_lists_2[w_i][k] == m_i_minus_1:
+          preference_lists_2[w_i] = preference_lists_2[w_i][:k + 1]
+          break
+        preference_matrix_2[w_i, preference_lists_2[w_i][k]] = 0
+        eliminating_rotations_of_pair[preference_lists_2[w_i][k], w_i] = current_rotation
+        k -= 1
+  for i in range(n):
+    k = 0
+    while True:
+      if k >= preference_lists_1[i].shape[0]:
+        preference_lists_1[i] = np.array([])
+        break
+      j = preference_lists_1[i][k]
+      in_preference_list = preference_matrix_2.get((j, i), 0)
+      if in_preference_list:
+        preference_lists_1[i] = preference_lists_1[i][k:]
+        break
+      preference_matrix_1[i, j] = 0
+      k += 1
+    k = 1
+    while True:
+      if k >= preference_lists_1[i].shape[0]:
+        preference_lists_1[i] = preference_lists_1[i][:1]
+        break
+      j = preference_lists_1[i][k]
+      in_preference_list = preference_matrix_2.get((j, i), 0)
+      if in_preference_list:
+        preference_lists_1[i] = np.append(preference_lists_1[i][0], preference_lists_1[i][k:])
+        break
+      k += 1
+return (ans, eliminating_rotations_of_pair)"""
+
+ALL_GALLINA = r"""(* preference_matrix_1 is only ever written (the translator checks that no expression reads it): it is left out. preference_matrix_2 and
+   eliminating_rotations_of_pair are association lists (Irving.aget / aset). current_rotation starts at -1 and is incremented BEFORE it is used: the state keeps
+   next = current_rotation + 1, a natural number, and a rotation is numbered with the value of next before the increment. The scan `k = len(l) - 1; while k >= 0`
+   walks the list from its end: it recurses over the reversed list. self.find_rotations is the parameter find_rotations (None = it raises). *)
+Definition gen_all_truthy (o : option nat) : bool := match o with Some (S _) => true | _ => false end.      (* `if d.get(key, 0):` *)
+Section GenAll.
+Variable find_rotations : list (list nat) -> list (list nat) -> option (list rot).
+(* k = len(l) - 1; while k >= 0: if l[k] == m_i_minus_1: l = l[:k + 1]; break; matrix_2[w_i, l[k]] = 0; elim[l[k], w_i] = current_rotation; k -= 1 *)
+Fixpoint gen_all_scan (revl : list nat) (w_i m_i_minus_1 current_rotation : nat) (preference_matrix_2 eliminating : list ((nat * nat) * nat))
+  : option (list nat) * list ((nat * nat) * nat) * list ((nat * nat) * nat) :=
+  match revl with
+  | [] => (None, preference_matrix_2, eliminating)
+  | x :: r => if (x =? m_i_minus_1)%nat then (Some (rev revl), preference_matrix_2, eliminating)
+              else gen_all_scan r w_i m_i_minus_1 current_rotation (aset preference_matrix_2 (w_i, x) 0) (aset eliminating (x, w_i) current_rotation)
+  end.
+Record gen_all_state := { g_pl1 : list (list nat); g_pl2 : list (list nat); g_m2 : list ((nat * nat) * nat); g_elim : list ((nat * nat) * nat); g_next : nat; g_ans : list rot }.
+(* the body of `for i in range(r)` *)
+Definition gen_all_pair (rotation : rot) (current_rotation : nat) (st : gen_all_state) (i : nat) : gen_all_state :=
+  let r := length rotation in
+  let m_i_minus_1 := fst (nth ((i + r - 1) mod r) rotation (O, O)) in      (* (i - 1) % r *)
+  let w_i := snd (nth i rotation (O, O)) in
+  let '(res, m2, el) := gen_all_scan (rev (nthl (g_pl2 st) w_i)) w_i m_i_minus_1 current_rotation (g_m2 st) (g_elim st) in
+  {| g_pl1 := g_pl1 st; g_pl2 := match res with Some l => upd (g_pl2 st) w_i l | None => g_pl2 st end; g_m2 := m2; g_elim := el; g_next := g_next st; g_ans := g_ans st |}.
+(* the body of `for rotation in rotations` *)
+Definition gen_all_rotation (st : gen_all_state) (rotation : rot) : gen_all_state :=
+  let current_rotation := g_next st in
+  let st' := fold_left (gen_all_pair rotation current_rotation) (seq 0 (length rotation)) st in
+  {| g_pl1 := g_pl1 st'; g_pl2 := g_pl2 st'; g_m2 := g_m2 st'; g_elim := g_elim st'; g_next := S current_rotation; g_ans := g_ans st' |}.
+(* the two `while True` scans of a man's list: drop the entries whose matrix entry is falsy from the front, then, after the first entry, again *)
+Fixpoint gen_all_drop (m2 : list ((nat * nat) * nat)) (i : nat) (l : list nat) : list nat :=
+  match l with [] => [] | j :: t => if gen_all_truthy (aget m2 (j, i)) then l else gen_all_drop m2 i t end.
+Definition gen_all_man (m2 : list ((nat * nat) * nat)) (i : nat) (l : list nat) : list nat :=
+  match gen_all_drop m2 i l with [] => [] | x :: rest => x :: gen_all_drop m2 i rest end.
+Fixpoint gen_all_loop (fuel : nat) (st : gen_all_state) : option gen_all_state :=
+  match fuel with O => None | S f =>
+    match find_rotations (g_pl1 st) (g_pl2 st) with None => None | Some rotations =>
+    if (length rotations =? 0)%nat then Some st (* break *) else
+    let st := {| g_pl1 := g_pl1 st; g_pl2 := g_pl2 st; g_m2 := g_m2 st; g_elim := g_elim st; g_next := g_next st; g_ans := g_ans st ++ rotations |} in
+    let st := fold_left gen_all_rotation rotations st in
+    let pl1 := map (fun il => gen_all_man (g_m2 st) (fst il) (snd il)) (combine (seq 0 (length (g_pl1 st))) (g_pl1 st)) in
+    gen_all_loop f {| g_pl1 := pl1; g_pl2 := g_pl2 st; g_m2 := g_m2 st; g_elim := g_elim st; g_next := g_next st; g_ans := g_ans st |} end
+  end.
+Definition gen_find_all (fuel : nat) (preference_lists_1 preference_lists_2 : list (list nat)) : option (list rot * list ((nat * nat) * nat)) :=
+  let n := length preference_lists_1 in
+  if negb (n =? length preference_lists_2)%nat then None else
+  let preference_matrix_2 := fold_left (fun m jl => fold_left (fun m i => aset m (fst jl, i) 1) (snd jl) m) (combine (seq 0 n) preference_lists_2) [] in
+  match gen_all_loop fuel {| g_pl1 := preference_lists_1; g_pl2 := preference_lists_2; g_m2 := preference_matrix_2; g_elim := []; g_next := 0; g_ans := [] |} with
+  | Some st => Some (g_ans st, g_elim st) | None => None end.
+End GenAll.
+"""
+
+def translate_irvall(repo):
+    src = open(os.path.join(repo, "socialchoicekit", "deterministic_matching.py")).read()
+    cls = _find(ast.parse(src).body, ast.ClassDef, "Irving")
+    f = _method(cls, "find_all_rotations_and_eliminations", False)
+    a = [x.arg for x in f.args.args]
+    if a != ["self", "preference_lists_1", "preference_lists_2"] or f.args.defaults or f.args.vararg or f.args.kwarg or f.args.kwonlyargs: _fail(f, "find_all_rotations_and_eliminations(self, preference_lists_1, preference_lists_2) expected")
+    got = [re.sub(r"for \((\w+), (\w+)\) in", r"for \1, \2 in", x) for x in _structure(_body(f))]; want = ALL_SHAPE.split("\n")
+    for k in range(max(len(got), len(want))):
+        g_ = got[k] if k < len(got) else "<end>"; w_ = want[k] if k < len(want) else "<end>"
+        if g_ != w_: _fail(f, "find_all_rotations_and_eliminations, statement %d: %r expected, got %r" % (k + 1, w_.strip(), g_.strip()))
+    for node in ast.walk(f):      # preference_matrix_1 must be a dead store
+        if isinstance(node, ast.Name) and node.id == "preference_matrix_1" and isinstance(node.ctx, ast.Load):
+            par = [p for p in ast.walk(f) if isinstance(p, ast.Subscript) and p.value is node and isinstance(p.ctx, ast.Store)]
+            if not par: _fail(node, "preference_matrix_1 is read somewhere")
+    return "\n".join(["(* GENERATED by harness/translate.py from Irving.find_all_rotations_and_eliminations (deterministic_matching.py:%d), whose statements were matched one by one. Do not edit. *)" % f.lineno,
+                      "From Coq Require Import Arith ZArith List Bool.", "Import ListNotations.", "From SCK Require Import FlowModel Mwcs Irving.", "", ALL_GALLINA])
